@@ -12,8 +12,24 @@ Case kinds
            (a statistical test of the "converge" clause, 7-sigma acceptance band)
   reject   configurations that the code is meant to refuse (nrep <= 0, nrep of the wrong length, a target above 1,
            a negative variance): the model's `none` against the implementation's exception (correspondence only)
+  phist    a multi-step HISTORY on one G_E_Phenotyping object (plus one TruePhenotyping / TrueBreedingValue object):
+           phenotype, re-assign nenv / nrep / var_* through the setters, set_h2 / set_H2, read-only statistics (cache
+           priming), in-place edits of the founder matrix, replacement of the genomic model, copy / deepcopy / HDF5 round
+           trip of the protocol, in-place edits of frames returned earlier; every phenotype / set_h2 step is judged like a
+           single-call case against the state of the population and configuration AT THAT STEP, and every frame returned
+           earlier must still read the same at the end
+  ehist    the same for one MeanPhenotypicBreedingValue object: estimate, edit the SAME data-frame object in place,
+           re-assign trait_cols / taxa_grp_col, estimate another table, overwrite a matrix returned earlier
+Options of the single-call kinds (`forms`): numpy scalar / narrow / unsigned / strided array arguments, copy / deepcopy /
+HDF5-restored protocol, miscout, rng=None, ploidy 1-4, custom column names, str / tuple / generator trait_cols, shuffled /
+string / filtered data-frame index, str / category label dtype, integer trait columns, phased genotype matrix as gtobj;
+magnitudes (`mag`): common offsets 25000 and 1e9 with differences of 0.5, values of 1e-8, exact ties; sizes past 127 /
+255 / 1024 / 4096 and the counts 49 / 98 / 103 / 107.
 """
+import os
+import tempfile
 import contextlib
+import json
 import math
 from fractions import Fraction
 
@@ -160,13 +176,30 @@ def _gv_exact(pop, dominance=True):
     return out
 
 
-def _var(x, t):
-    """var_* argument of the constructor from its JSON form"""
+def _var(x, t, form=None):
+    """var_* argument of the constructor / setter from its JSON form; `form` selects an equivalent argument form
+    (only where the values are exactly representable in it)"""
     if x is None:
         return None
     if isinstance(x, list):
-        return numpy.array([_f(v) for v in x], dtype=float)
-    return _f(x)
+        vals = [Fraction(v) for v in x]
+        if form == "int" and all(v.denominator == 1 for v in vals):
+            return numpy.array([int(v) for v in vals], dtype="int64")
+        if form == "float32" and all(Fraction(float(numpy.float32(float(v)))) == v for v in vals):
+            return numpy.array([float(v) for v in vals], dtype="float32")
+        if form == "strided":
+            buf = numpy.full(2 * len(vals), 77.0, dtype=float)
+            buf[::2] = [float(v) for v in vals]
+            return buf[::2]
+        return numpy.array([float(v) for v in vals], dtype=float)
+    v = Fraction(x)
+    if form in ("int", "pyint") and v.denominator == 1:
+        return int(v)
+    if form == "float32" and Fraction(float(numpy.float32(float(v)))) == v:
+        return numpy.float32(float(v))
+    if form in ("np_scalar", "strided"):
+        return numpy.float64(float(v))
+    return float(v)
 
 
 def _var_vec(x, t):
@@ -177,8 +210,18 @@ def _var_vec(x, t):
     return [Fraction(x)] * t
 
 
-def _nrep_arg(x):
-    return numpy.array(x, dtype=int) if isinstance(x, list) else int(x)
+def _nrep_arg(x, form=None):
+    if isinstance(x, list):
+        if form == "strided":
+            buf = numpy.full(2 * len(x), 99, dtype=int)
+            buf[::2] = x
+            return buf[::2]
+        if form in ("int8", "uint8", "int32", "uint64") and max(x) < 128:
+            return numpy.array(x, dtype=form)
+        return numpy.array(x, dtype=int)
+    if form in ("int8", "int32", "uint8", "np_scalar") and int(x) < 128:
+        return {"int8": numpy.int8, "int32": numpy.int32, "uint8": numpy.uint8, "np_scalar": numpy.int64}[form](int(x))
+    return int(x)
 
 
 def _nrep_list(nenv, x):
@@ -259,23 +302,79 @@ def _rows_close(a, b, rel=1e-9, abs_=1e-12):
     return True
 
 
+def _scale_of(*xs):
+    """largest magnitude among the numbers of nested encoded structures (None / markers skipped)"""
+    m = Fraction(0)
+    stack = list(xs)
+    while stack:
+        x = stack.pop()
+        if x is None or isinstance(x, bool):
+            continue
+        if isinstance(x, dict):
+            stack.extend(x.values())
+        elif isinstance(x, (list, tuple)):
+            stack.extend(x)
+        elif isinstance(x, str):
+            if x in ("nan", "inf", "-inf") or not (x.lstrip("-")[:1].isdigit()):
+                continue
+            try:
+                v = abs(canon.dec(x))
+            except Exception:
+                continue
+            m = max(m, v)
+        elif isinstance(x, (int, float, Fraction)):
+            m = max(m, abs(Fraction(x)))
+    return m
+
+
+def _tight(a, b, scale):
+    """rows equal up to 1e-12 of the largest operand magnitude (binary64 sums of a handful of terms err by a few ulp of
+    the largest operand; a tolerance relative to the RESULT would be wrong under cancellation and blind under offsets)"""
+    return _rows_close(a, b, rel=0, abs_=Fraction(scale) / 10 ** 12)
+
+
+def _popvar(col):
+    n = len(col)
+    mu = sum(col, Fraction(0)) / n
+    return sum(((x - mu) ** 2 for x in col), Fraction(0)) / n
+
+
+def _var_exact(pop, dominance):
+    """population variance (ddof = 0) of each column of the exact true values: var_A (breeding values) / var_G"""
+    gv = _gv_exact(pop, dominance=dominance)
+    t = len(gv[0])
+    return [_popvar([row[j] for row in gv]) for j in range(t)]
+
+
 class C14(Prop):
     PID = "C14"
     MODULE = "PybropsModel.Props.C14"
     N_QUICK = 400
-    N_THOROUGH = 6000
-    RULE = ("pheno: 1-7 taxa (sizes 9/10/11/101 for default names) x 1-5 markers x 1-3 traits, additive or "
-            "additive+dominance genomic model, 1-2 fixed effects, unsorted unique names (10% with one repeated name) or no "
-            "names, groups present/absent, 1-4 environments with scalar or per-environment replicate counts, variances "
-            "None/scalar/array/zero, draws scripted (dyadic), genuine (recorded) or all-zero variance; h2: targets in (0,1] "
-            "scalar or per trait incl. 1, traits with var_A = 0; meanbv: hand-built tables with shuffled rows, unsorted "
-            "labels, duplicate names inside one group, taxa absent from the table and taxa absent from the genotype "
-            "matrix, trait columns reordered, 25 % with NaN cells (incl. a taxon without any value for a trait), estimated as "
-            "is / rows permuted / genotype taxa permuted; thorough tier: exhaustive enumeration of all tables of 1-4 records "
-            "over 2 names x 2 groups against all genotype lists of 1-3 entries (27 200 cases); pipeline: real "
-            "phenotype() output into real estimate(); stat: 2000-3000 records with a genuine generator.  Non-trivial = "
-            "pheno with >= 2 taxa and >= 2 (env,rep) cells and names not in sorted order; h2 with var_A > 0 and target "
-            "< 1; meanbv with a taxon having >= 2 records and genotype order different from group-by order")
+    N_THOROUGH = 4500
+    RULE = ("pheno: 1-7 taxa (sizes 9/10/11/100/101 for default names; 1025 taxa, 130/260 environments, 130 replicates, 4100 "
+            "records in the corpus) x 1-5 markers x 1-3 traits (11 in the corpus), ploidy 1-5, additive or additive+dominance "
+            "genomic model, 1-2 fixed effects, clones / partly inbred taxa / a trait without marker effects, common offsets "
+            "25000 and 1e9 with effects of 0.5, effects of 1e-8, unsorted unique names incl. case / whitespace / unicode-"
+            "normalisation twins and 'nan'/'NA'/'None' (10% with one repeated name) or no names, groups present/absent (negative "
+            "and large labels), 1-4 environments with scalar or per-environment (unequal) replicate counts, variances "
+            "None/scalar/per-trait array/zero, draws scripted (dyadic), genuine (recorded) or all-zero variance, 35 % through an "
+            "equivalent argument form (numpy scalars, int8/uint8/int32/uint64/strided arrays, float32/int variances) or a "
+            "secondary route (copy, deepcopy, to_hdf5+from_hdf5, miscout, rng=None); h2: targets in (0,1] scalar or per trait "
+            "incl. 1, 1-2^-30, 2^-27, populations of 2-130 taxa incl. 49/98/103/107, tiny / offset true values, traits with "
+            "var_A = 0; meanbv: hand-built tables with shuffled rows, unsorted labels, duplicate names inside one group, taxa "
+            "absent from the table and from the genotype matrix, trait columns reordered, 25 % NaN cells, 25 % special "
+            "magnitudes (25000+x, 1e9+-0.5, 1e-9, exact ties), a taxon with 49-300 records (1030 in the corpus), constant "
+            "columns, partially grouped tables, 35 % other argument forms (str/tuple/generator trait_cols, custom column names, "
+            "extra column, shuffled/string/offset index, str/category labels, integer columns, phased genotype matrix), "
+            "estimated as is / rows permuted / genotype taxa permuted; thorough tier: exhaustive enumeration of all tables "
+            "of 1-4 records over 2 names x 2 groups against all genotype lists of 1-3 entries (27 200 cases); pipeline: real "
+            "phenotype() or TruePhenotyping output, optionally row-permuted / sampled / filtered with the index kept, into "
+            "real estimate(); phist / ehist: 3-12 step histories on ONE protocol / estimator object (setters, set_h2, in-place "
+            "edits of founders / frames, model replacement, clones, overwritten outputs); stat: 2000-3000 records with a "
+            "genuine generator, equal or unequal replicate counts, per-trait variances incl. zeros, half of them configured "
+            "through the setters after construction.  Non-trivial = pheno with >= 2 taxa and >= 2 (env,rep) cells and names "
+            "not in sorted order; h2 with var_A > 0 and target < 1; meanbv with a taxon having >= 2 records and genotype order "
+            "different from group-by order; histories with >= 2 judged steps")
     TRUSTED = [
         "pandas DataFrame construction / column access / groupby().agg(mean) entered through the contract "
         "'one row per distinct key, per-column arithmetic mean, rows with a missing key dropped' (re-checked on every "
@@ -298,7 +397,14 @@ class C14(Prop):
         "phenotype tables may hold NaN cells: the model follows pandas' skip-NaN group mean (`meanBVNan`); the Spec accepts "
         "skip-NaN mean or missing where only some records of a taxon lack the value (the property does not say)",
         "math.ceil(math.log10(n)) is the least k with n <= 10**k (exercised at n = 1, 9, 10, 11, 101)",
-        "float arithmetic: inputs are small integers / dyadic rationals so sums are exact; comparisons use rel 1e-9",
+        "float arithmetic: inputs are integers / dyadic rationals so most sums are exact; values are compared with an absolute "
+        "tolerance of 1e-12 x the largest operand magnitude (true values, draws, table column), variances and error "
+        "variances with a relative 1e-9; zero-noise records are compared EXACTLY with the true values the model reports",
+        "heritability targets are passed as Python floats / float64 (a float32 target makes numpy evaluate (1-h2)/h2 in single "
+        "precision - the caller's choice of precision, not generated)",
+        "histories: every step is valid on its own (setters receive accepted values; after nenv is changed the replicate array "
+        "is re-assigned, except in the dedicated D60 histories); data frames / matrices returned earlier are only overwritten "
+        "through their own public interface (DataFrame.loc, matrix.mat[...]) and must not change otherwise",
     ]
 
     # set while a self-test mutant is active: cases that trigger the known finding D18 fail on the unchanged tree
@@ -357,32 +463,175 @@ class C14(Prop):
              "var_err": 1, "seed": 3, "use_grp": True, "gt_perm": [2, 0, 1]},
             {"kind": "pipeline", "pop": pop3, "nenv": 2, "nrep": 2, "var_env": 1, "var_rep": 1,
              "var_err": 1, "seed": 3, "use_grp": True, "gt_perm": [2, 0, 1]},
+        ] + self._corpus_round3(pop3, table)
+
+    @staticmethod
+    def _corpus_round3(pop3, table):
+        """round 3: histories on one object, magnitudes that interact with tolerances, sizes past internal constants,
+        rarely used argument forms, secondary entry points (fixed, hand-written cases; the generators add random ones)"""
+        import random as _r
+        rr = _r.Random(14)
+        big_n = 1025
+        pop_big = {"geno": [[[rr.randint(0, 1), rr.randint(0, 1)] for _ in range(big_n)] for _ in range(2)],
+                   "taxa": [f"t{(i * 7919) % 100003}" for i in range(big_n)], "grp": None, "trait": ["y"],
+                   "beta": [[3]], "u": [[1], [2]]}
+        pop2 = {"geno": [[[1, 0]], [[0, 1]]] and [[[1, 0], [0, 0]], [[0, 1], [1, 1]]], "taxa": ["q", "c"], "grp": [5, 4],
+                "trait": None, "beta": [[7]], "u": [[2], [-3]]}
+        pop_e9 = dict(pop3, beta=[[10 ** 9, 25000]], u=[["1/2", "-1/4"], ["3/2", "1/4"], ["-1/2", "1/2"]])
+        pop_tiny = dict(pop3, u=[[f"1/{2 ** 27}", f"-2/{2 ** 27}"], [f"3/{2 ** 27}", f"1/{2 ** 27}"],
+                                 [f"-1/{2 ** 27}", f"4/{2 ** 27}"]])
+        script_e9 = [{"env": ["1/2", 0], "reps": [{"rep": ["-1/2", "1/4"], "err": [["1/2", 0], ["-1/2", "1/8"], [0, "-1/8"]]}]}]
+        many = {"taxa": ["b"] * 1030 + ["a", "c", "a"], "grp": [1] * 1030 + [2, 3, 2],
+                "env": list(range(1, 1031)) + [1, 1, 2], "rep": [1] * 1033, "cols": ["y"],
+                "vals": [[10 ** 9 + (i % 3 - 1) * 0.5] for i in range(1030)] + [[10 ** 9 + 0.5], [10 ** 9 - 0.5], [10 ** 9]]}
+        many["vals"] = [[canon.enc(Fraction(v[0]))] for v in many["vals"]]
+        wide_names = [f"g{(i * 613) % 1009:04d}" for i in range(300)]
+        wide = {"taxa": list(wide_names), "grp": None, "env": [1] * 300, "rep": [1] * 300, "cols": ["y"],
+                "vals": [[(i * 37) % 101] for i in range(300)]}
+        gt_wide = [wide_names[(i * 7) % 300] for i in range(300)]
+        tiny_tab = dict(table, vals=[[f"{a}/{2 ** 27}", f"{b}/{2 ** 27}"] for a, b in
+                                     [(1, 10), (2, 20), (4, 40), (8, 80), (3, 30), (7, 71)]])
+        hist_pop = {"geno": [[[1, 0, 1], [0, 0, 1], [1, 1, 0], [0, 1, 0]], [[1, 1, 0], [0, 1, 0], [1, 0, 0], [0, 0, 0]]],
+                    "taxa": ["d", "b", "a", "c"], "grp": [2, 1, 2, 1], "trait": ["y1", "y2"],
+                    "beta": [[10, 20]], "u": [[1, -2], [3, 1], [-1, 4]]}
+        clone01 = [[ph, 1, k, None, 0] for ph in range(2) for k in range(3)]
+        hist = {"kind": "phist", "pop": hist_pop, "seed": 21, "u2": [[2, 1], [-1, 5], [4, -3]], "beta2": [[0, 3]],
+                "nenv": 2, "nrep": 1, "var_env": None, "var_rep": None, "var_err": None}
+        e0 = {"taxa": ["b", "a", "b", "c", "a"], "grp": [1, 2, 1, 3, 2], "env": [1, 1, 2, 1, 2], "rep": [1] * 5,
+              "cols": ["y1", "y2"], "vals": [[1, 10], [2, 20], [4, 40], [8, 80], [3, 30]]}
+        e1 = {"taxa": ["c", "b", "zz"], "grp": [3, 1, 9], "env": [1, 1, 1], "rep": [1] * 3,
+              "cols": ["y1", "y2"], "vals": [[5, 50], [6, 60], [7, 70]]}
+        return [
+            # ---- sizes: 1025 taxa (past 1024), 130 / 260 environments and 130 replicates (past 127 / 255), 4100 records
+            {"kind": "pheno", "pop": pop_big, "nenv": 1, "nrep": 1, "var_env": None, "var_rep": 0, "var_err": None,
+             "mode": "zero", "seed": 1},
+            {"kind": "pheno", "pop": pop2, "nenv": 130, "nrep": 1, "var_env": 1, "var_rep": 1, "var_err": 1,
+             "mode": "real", "seed": 2},
+            {"kind": "pheno", "pop": pop2, "nenv": 260, "nrep": 1, "var_env": 0, "var_rep": None, "var_err": 0,
+             "mode": "zero", "seed": 2},
+            {"kind": "pheno", "pop": pop2, "nenv": 2, "nrep": [130, 1], "var_env": 0, "var_rep": 0, "var_err": 0,
+             "mode": "zero", "seed": 3},
+            {"kind": "pheno", "pop": dict(pop3, taxa=["d", "b", "d"]), "nenv": 41, "nrep": [34] * 40 + [7],
+             "var_env": 1, "var_rep": [0, 1], "var_err": ["1/4", 0], "mode": "real", "seed": 4},
+            # ---- magnitudes: common offset 1e9 / 25000 with effects of 0.5, effects of 1e-8
+            {"kind": "pheno", "pop": pop_e9, "nenv": 1, "nrep": 1, "var_env": [1, 0], "var_rep": 1, "var_err": 1,
+             "mode": "scripted", "script": script_e9},
+            {"kind": "pheno", "pop": pop_e9, "nenv": 2, "nrep": [1, 2], "var_env": 0, "var_rep": 0, "var_err": 0,
+             "mode": "zero", "seed": 6},
+            {"kind": "pheno", "pop": pop_tiny, "nenv": 2, "nrep": 1, "var_env": None, "var_rep": None, "var_err": None,
+             "mode": "zero", "seed": 7},
+            {"kind": "h2", "pop": pop_tiny, "which": "h2", "h2": canon.enc(1 - Fraction(1, 2 ** 30))},
+            {"kind": "h2", "pop": pop_tiny, "which": "H2", "h2": [canon.enc(Fraction(1, 2 ** 27)), "1/2"]},
+            {"kind": "h2", "pop": pop_e9, "which": "h2", "h2": canon.enc(1 - Fraction(1, 2 ** 17))},
+            {"kind": "h2", "pop": pop3, "which": "h2", "h2": 1, "h2_form": "int"},
+            {"kind": "meanbv", "table": many, "taxa_col": "taxa", "grp_col": "taxa_grp", "trait_cols": ["y"],
+             "gt": {"taxa": ["c", "b", "zz", "a"], "grp": None}, "row_perm": list(range(1032, -1, -1)), "gt_perm": [3, 1, 0, 2]},
+            {"kind": "meanbv", "table": wide, "taxa_col": "taxa", "grp_col": None, "trait_cols": ["y"],
+             "gt": {"taxa": gt_wide, "grp": None}, "row_perm": [(i * 11) % 300 for i in range(300)],
+             "gt_perm": [(i * 13) % 300 for i in range(300)]},
+            {"kind": "meanbv", "table": tiny_tab, "taxa_col": "taxa", "grp_col": "taxa_grp", "trait_cols": ["y2", "y1"],
+             "gt": {"taxa": ["c", "zz", "a", "b"], "grp": [7, 8, 9, 6]}, "row_perm": [5, 3, 1, 0, 4, 2],
+             "gt_perm": [2, 0, 3, 1]},
+            # ---- argument forms and secondary entry points
+            {"kind": "pheno", "pop": pop3, "nenv": 2, "nrep": [2, 1], "var_env": 1, "var_rep": [2, 3], "var_err": "1/2",
+             "mode": "real", "seed": 8, "forms": {"nenv": "np64", "nrep": "uint8", "var": "float32", "via": "hdf5"}},
+            {"kind": "pheno", "pop": pop3, "nenv": 3, "nrep": [1, 3, 2], "var_env": 4, "var_rep": [1, 0], "var_err": 2,
+             "mode": "real", "seed": 9, "forms": {"nrep": "strided", "var": "int", "via": "deepcopy", "miscout": True}},
+            {"kind": "pheno", "pop": pop3, "nenv": 2, "nrep": 2, "var_env": 1, "var_rep": 1, "var_err": [1, 2],
+             "mode": "real", "seed": 10, "forms": {"nrep": "np_scalar", "var": "strided", "via": "copy"}},
+            {"kind": "pheno", "pop": dict(pop3, geno=[pop3["geno"][0]]), "nenv": 1, "nrep": 2, "var_env": 0, "var_rep": 0,
+             "var_err": 0, "mode": "zero", "seed": 11, "rng_none": True},
+            {"kind": "pheno", "pop": dict(pop3, geno=pop3["geno"] + pop3["geno"][::-1] + pop3["geno"][:1]), "nenv": 2,
+             "nrep": 1, "var_env": 1, "var_rep": 0, "var_err": 1, "mode": "real", "seed": 12},
+            {"kind": "meanbv", "table": table, "taxa_col": "line", "grp_col": "family", "trait_cols": ["y2"],
+             "gt": {"taxa": ["c", "zz", "a", "b"], "grp": [7, 8, 9, 6]}, "row_perm": [5, 3, 1, 0, 4, 2], "gt_perm": [2, 0, 3, 1],
+             "forms": {"trait": "str", "names": True, "extra_col": True, "index": "shuffled", "taxa_dtype": "category",
+                       "gt_kind": "dpgm", "miscout": True}},
+            {"kind": "meanbv", "table": dict(table, grp=[1, None, 1, 3, None, 1]), "taxa_col": "taxa", "grp_col": "taxa_grp",
+             "trait_cols": ["y1", "y2"], "gt": {"taxa": ["c", "zz", "a", "b"], "grp": None}, "row_perm": [5, 3, 1, 0, 4, 2],
+             "gt_perm": [2, 0, 3, 1]},
+            {"kind": "pipeline", "pop": pop3, "nenv": 1, "nrep": 1, "var_env": None, "var_rep": None, "var_err": None,
+             "seed": 3, "use_grp": True, "gt_perm": [2, 0, 1], "src": "true", "frame_op": "iloc_perm", "frame_seed": 5},
+            {"kind": "pipeline", "pop": pop3, "nenv": 2, "nrep": [2, 1], "var_env": 1, "var_rep": 1, "var_err": 1,
+             "seed": 3, "use_grp": False, "gt_perm": [1, 2, 0], "frame_op": "mask", "frame_seed": 6},
+            # eleven traits without names (default trait labels Trait01 .. Trait11), one marker
+            {"kind": "pheno", "pop": {"geno": [[[1], [0], [1]], [[1], [1], [0]]], "taxa": None, "grp": [3, 1, 2], "trait": None,
+                                      "beta": [list(range(11))], "u": [[(-1) ** j * (j + 1) for j in range(11)]]},
+             "nenv": 2, "nrep": [1, 2], "var_env": None, "var_rep": None, "var_err": None, "mode": "zero", "seed": 13},
+            # ---- histories on one object
+            dict(hist, steps=[{"op": "set_h2", "which": "h2", "h2": "1/2", "pg": "A"}, {"op": "gpmod"},
+                              {"op": "set_h2", "which": "h2", "h2": "1/4", "pg": "A"},
+                              {"op": "edit", "pg": "A", "cells": clone01},
+                              {"op": "set_h2", "which": "h2", "h2": "3/4", "pg": "A"}, {"op": "pheno", "pg": "A"}]),
+            dict(hist, steps=[{"op": "pheno", "pg": "A"}, {"op": "set", "attr": "var_err", "value": [1, 4]},
+                              {"op": "pheno", "pg": "A"}, {"op": "set", "attr": "var_err", "value": None},
+                              {"op": "edit", "pg": "A", "cells": clone01}, {"op": "pheno", "pg": "A"},
+                              {"op": "gpmod"}, {"op": "pheno", "pg": "A"}]),
+            dict(hist, nrep=[2, 1], steps=[{"op": "pheno", "pg": "A"}, {"op": "set", "attr": "nenv", "value": 3},
+                                           {"op": "set", "attr": "nrep", "value": [1, 1, 2]}, {"op": "pheno", "pg": "A"},
+                                           {"op": "clone", "how": "copy"}, {"op": "pheno", "pg": "A"},
+                                           {"op": "mutate_out", "which": 0}, {"op": "set", "attr": "nenv", "value": 1},
+                                           {"op": "pheno", "pg": "A"}]),
+            dict(hist, steps=[{"op": "read", "what": "var_A", "pg": "A"}, {"op": "read", "what": "gegv", "pg": "A"},
+                              {"op": "edit", "pg": "A", "cells": [[0, 2, 0, 0], [1, 2, 0, 0]]},
+                              {"op": "set_h2", "which": "H2", "h2": ["1/2", 1], "pg": "A"}, {"op": "pheno", "pg": "A"}]),
+            {"kind": "ehist", "tables": [e0, e1], "gt": {"taxa": ["c", "zz", "a", "b"], "grp": [7, 8, 9, 6]},
+             "taxa_col": "taxa", "grp_col": "taxa_grp", "trait_cols": ["y2", "y1"],
+             "steps": [{"op": "est", "table": 0, "gt": True}, {"op": "edit", "table": 0, "cells": [[0, "y1", 100], [4, "y2", -7]]},
+                       {"op": "est", "table": 0, "gt": True}, {"op": "est", "table": 1, "gt": True},
+                       {"op": "zero_out", "which": 1}, {"op": "set", "attr": "trait_cols", "value": ["y1"]},
+                       {"op": "est", "table": 0, "gt": False}, {"op": "relabel", "table": 0, "row": 3, "to": "a"},
+                       {"op": "set", "attr": "taxa_grp_col", "value": None}, {"op": "est", "table": 0, "gt": True}]},
         ]
 
     # ================================================================================ generation
-    @staticmethod
-    def _names(rng, n):
-        pool = ["zeta", "Alpha", "mu", "beta", "B73", "b73", "Mo17", "10", "9", "a", "Z", "é", "line 2", "x_1", "x_10",
-                "x_2", "taxon", "Taxon1", "omega", "K"]
+    NAME_POOL = ["zeta", "Alpha", "mu", "beta", "B73", "b73", "Mo17", "10", "9", "a", "Z", "é", "line 2", "x_1", "x_10",
+                 "x_2", "taxon", "Taxon1", "omega", "K", "nan", "NA", "None", " a", "é"]
+
+    @classmethod
+    def _names(cls, rng, n):
+        pool = cls.NAME_POOL
         names = rng.sample(pool, n) if n <= len(pool) else [f"n{rng.randrange(10**6)}_{i}" for i in range(n)]
         return names
 
-    def _pop(self, rng, n=None, named=None):
+    def _pop(self, rng, n=None, named=None, mag=None, nphase=None):
         n = n if n is not None else rng.choice([1, 2, 2, 3, 3, 4, 5, 7])
         p = rng.choice([1, 2, 3, 3, 5])
         t = rng.choice([1, 1, 2, 2, 3])
-        geno = [[[rng.randint(0, 1) for _ in range(p)] for _ in range(n)] for _ in range(2)]
+        nphase = nphase if nphase is not None else (2 if rng.random() < 0.85 else rng.choice([1, 3, 4]))
+        geno = [[[rng.randint(0, 1) for _ in range(p)] for _ in range(n)] for _ in range(nphase)]
+        r = rng.random()
+        if n >= 3 and r < 0.10:            # clones: two taxa with the same genotype (ties in the true values)
+            i, j = rng.sample(range(n), 2)
+            for ph in geno:
+                ph[j] = list(ph[i])
+        elif n >= 2 and r < 0.20:          # partly inbred: some taxa homozygous at every locus, the others not
+            for i in range(n):
+                if rng.random() < 0.5:
+                    for ph in geno[1:]:
+                        ph[i] = list(geno[0][i])
         # make the taxa genetically distinct where possible so that a mix-up of rows is visible
         u = [[rng.choice([-3, -2, -1, 1, 2, 3, 5]) * (2 ** k if rng.random() < 0.5 else 1) for _ in range(t)]
              for k in range(p)]
+        if t >= 2 and rng.random() < 0.12:   # a trait without any marker effect next to varying ones (constant column)
+            j = rng.randrange(t)
+            for row in u:
+                row[j] = 0
         q = rng.choice([1, 1, 1, 2])
         beta = [[rng.randint(-5, 20) for _ in range(t)]] + [[2 * rng.randint(-3, 3) for _ in range(t)] for _ in range(q - 1)]
+        if mag == "offset25k":
+            beta[0] = [25000 + rng.randint(0, 3) for _ in range(t)]
+        elif mag == "offset1e9":
+            beta[0] = [10 ** 9 for _ in range(t)]
+            u = [[canon.enc(Fraction(x, 2)) for x in row] for row in u]
+        elif mag == "tiny":
+            u = [[canon.enc(Fraction(x, 2 ** 27)) for x in row] for row in u]
         named = (rng.random() < 0.8) if named is None else named
         taxa = self._names(rng, n) if named else None
-        grp = [rng.randint(1, 3) for _ in range(n)] if rng.random() < 0.6 else None
+        grp = [rng.choice([1, 2, 3, -1, 40000]) for _ in range(n)] if rng.random() < 0.6 else None
         trait = [f"tr{j}" for j in rng.sample(range(10), t)] if rng.random() < 0.7 else None
         pop = {"geno": geno, "taxa": taxa, "grp": grp, "trait": trait, "beta": beta, "u": u}
-        if rng.random() < 0.25:
+        if nphase == 2 and mag is None and rng.random() < 0.25:
             pop["ud"] = [[rng.choice([-2, -1, 0, 1, 4]) for _ in range(t)] for _ in range(p)]
             pop["beta"] = beta[:1]
         return pop
@@ -396,35 +645,61 @@ class C14(Prop):
         vals = [0, 1, 2, Fraction(1, 2), Fraction(9, 4), 4] if allow_zero else [1, 2, Fraction(1, 2), Fraction(9, 4), 4]
         if r < 0.15:
             return None
-        if r < 0.55:
+        if r < 0.50:
             return canon.enc(rng.choice(vals))
         return [canon.enc(rng.choice(vals)) for _ in range(t)]
 
+    @staticmethod
+    def _forms(rng, p=0.35):
+        """equivalent argument forms / construction routes of the protocol (DESIGN class 4/5)"""
+        if rng.random() >= p:
+            return None
+        f = {}
+        if rng.random() < 0.4:
+            f["nenv"] = rng.choice(["np64", "np32"])
+        if rng.random() < 0.5:
+            f["nrep"] = rng.choice(["int8", "uint8", "int32", "uint64", "strided", "np_scalar"])
+        if rng.random() < 0.5:
+            f["var"] = rng.choice(["float32", "int", "strided", "np_scalar", "pyint"])
+        if rng.random() < 0.45:
+            f["via"] = rng.choice(["copy", "deepcopy", "hdf5"])
+        if rng.random() < 0.3:
+            f["miscout"] = True
+        return f or None
+
     def _gen_pheno(self, rng):
         r = rng.random()
+        mag = rng.choice(["offset25k", "offset1e9", "tiny"]) if rng.random() < 0.15 else None
         if r < 0.06:
-            pop = self._pop(rng, n=rng.choice([9, 10, 11, 101]), named=False)
+            pop = self._pop(rng, n=rng.choice([9, 10, 11, 100, 101]), named=False, mag=mag)
         else:
-            pop = self._pop(rng)
+            pop = self._pop(rng, mag=mag)
         t = self._t(pop)
         n = len(pop["geno"][0])
         if pop["taxa"] is not None and n >= 2 and rng.random() < 0.1:     # two taxa sharing one name
             pop["taxa"][rng.randrange(n)] = pop["taxa"][rng.randrange(n)]
         nenv = rng.choice([1, 2, 2, 3, 4])
         nrep = rng.choice([1, 2, 3]) if rng.random() < 0.4 else [rng.randint(1, 3) for _ in range(nenv)]
+        if isinstance(nrep, list) and nenv >= 2 and len(set(nrep)) == 1 and rng.random() < 0.7:
+            nrep[rng.randrange(nenv)] += 1                                  # per-environment counts that differ
         mode = rng.choice(["scripted", "scripted", "real", "zero"])
         case = {"kind": "pheno", "pop": pop, "nenv": nenv, "nrep": nrep, "mode": mode}
+        forms = self._forms(rng)
+        if forms:
+            case["forms"] = forms
         if mode == "zero":
             for k in ("var_env", "var_rep", "var_err"):
                 case[k] = rng.choice([None, 0, [0] * t])
             case["seed"] = rng.randrange(2 ** 31)
+            if rng.random() < 0.2 and not (forms and forms.get("via") == "hdf5"):
+                case["rng_none"] = True        # rng=None: the package-level generator (no noise is drawn from it anyway)
             return case
         for k in ("var_env", "var_rep", "var_err"):
             case[k] = self._variance(rng, t)
         if mode == "real":
             case["seed"] = rng.randrange(2 ** 31)
             case["legacy_rng"] = rng.random() < 0.3
-            if rng.random() < 0.12:        # `nenv` re-assigned through its setter after construction
+            if rng.random() < 0.12 and not forms:        # `nenv` re-assigned through its setter after construction
                 if isinstance(nrep, list):
                     if nenv > 1:
                         case["nenv_after"] = rng.randint(1, nenv - 1)       # fewer environments: the zip truncates
@@ -432,26 +707,35 @@ class C14(Prop):
                     case["nenv_after"] = rng.choice([max(1, nenv - 1), nenv + 1, nenv + 2])
             return case
         ve, vr, vx = (_var_vec(case[k], t) for k in ("var_env", "var_rep", "var_err"))
+        den = 4 * (2 ** 27 if mag == "tiny" else 1)
 
         def z(v):
-            return [canon.enc(Fraction(rng.randint(-12, 12), 4)) if x != 0 else 0 for x in v]
+            return [canon.enc(Fraction(rng.randint(-12, 12), den)) if x != 0 else 0 for x in v]
         script = []
         for e, k in enumerate(_nrep_list(nenv, nrep)):
             script.append({"env": z(ve), "reps": [{"rep": z(vr), "err": [z(vx) for _ in range(n)]} for _ in range(k)]})
         case["script"] = script
         return case
 
+    H2_TARGETS = [1, Fraction(1, 2), Fraction(1, 4), Fraction(3, 4), Fraction(1, 8), Fraction(1, 1024),
+                  Fraction(0.3), Fraction(0.9), Fraction(0.05), Fraction(0.999),
+                  1 - Fraction(1, 2 ** 30), Fraction(1, 2 ** 27), Fraction(1, 2 ** 17), 1 - Fraction(1, 2 ** 17)]
+
     def _gen_h2(self, rng):
-        pop = self._pop(rng, n=rng.choice([2, 3, 4, 5, 7, 49]))
+        mag = rng.choice(["offset25k", "offset1e9", "tiny"]) if rng.random() < 0.3 else None
+        pop = self._pop(rng, n=rng.choice([2, 3, 4, 5, 7, 49, 98, 103, 107, 130]), mag=mag)
         t = self._t(pop)
         if rng.random() < 0.15:      # a trait without genetic variance
             j = rng.randrange(t)
             for row in pop["u"]:
                 row[j] = 0
-        targets = [1, Fraction(1, 2), Fraction(1, 4), Fraction(3, 4), Fraction(1, 8), Fraction(1, 1024),
-                   Fraction(0.3), Fraction(0.9), Fraction(0.05), Fraction(0.999)]
+        targets = self.H2_TARGETS
         h2 = canon.enc(rng.choice(targets)) if rng.random() < 0.5 else [canon.enc(rng.choice(targets)) for _ in range(t)]
-        return {"kind": "h2", "pop": pop, "which": rng.choice(["h2", "H2"]), "h2": h2}
+        case = {"kind": "h2", "pop": pop, "which": rng.choice(["h2", "H2"]), "h2": h2}
+        if rng.random() < 0.3:
+            # (no float32 forms: numpy then evaluates (1 - h2)/h2 in float32, a precision the caller chose)
+            case["h2_form"] = rng.choice(["np64", "int", "np64"])
+        return case
 
     def _gen_meanbv(self, rng):
         ntax = rng.choice([1, 2, 3, 4, 5, 6])
@@ -460,16 +744,39 @@ class C14(Prop):
         ncol = rng.choice([1, 2, 3])
         cols = [f"c{j}" for j in rng.sample(range(10), ncol)]
         with_grp = rng.random() < 0.65
-        gmap = {nm: rng.randint(1, 4) for nm in table_names}
+        gmap = {nm: rng.choice([1, 2, 3, 4, -2, 70000]) for nm in table_names}
+        mag = rng.choice(["offset25k", "offset1e9", "tiny", "ties"]) if rng.random() < 0.25 else None
+        big = rng.choice(table_names) if rng.random() < 0.10 else None       # one taxon with very many records
+        int_vals = mag is None and rng.random() < 0.15
+
+        def val():
+            if mag == "offset25k":
+                return 25000 + Fraction(rng.randint(-8, 8), 4)
+            if mag == "offset1e9":
+                return 10 ** 9 + Fraction(rng.randint(-3, 3), 2)
+            if mag == "tiny":
+                return Fraction(rng.randint(-40, 40), 2 ** 30)
+            if mag == "ties":
+                return Fraction(rng.choice([3, 5]))
+            if int_vals:
+                return Fraction(rng.randint(-40, 40))
+            return Fraction(rng.randint(-40, 40), rng.choice([1, 2, 4]))
         taxa, grp, env, rep, vals = [], [], [], [], []
         for nm in table_names:
-            for k in range(rng.choice([1, 1, 2, 3, 5])):
+            cnt = rng.choice([49, 98, 103, 107, 128, 130, 257, 300]) if nm == big else rng.choice([1, 1, 2, 3, 5])
+            for k in range(cnt):
                 taxa.append(nm)
                 grp.append(gmap[nm])
                 env.append(k + 1)
                 rep.append(1)
-                vals.append([canon.enc(Fraction(rng.randint(-40, 40), rng.choice([1, 2, 4]))) for _ in range(ncol)])
-        if rng.random() < 0.25:        # missing phenotype values (NaN cells); pandas' mean skips them
+                vals.append([canon.enc(val()) for _ in range(ncol)])
+        if ncol >= 2 and rng.random() < 0.1:       # a constant trait column next to varying ones
+            j = rng.randrange(ncol)
+            for row in vals:
+                row[j] = vals[0][j]
+        has_nan = False
+        if rng.random() < 0.25 and not int_vals:        # missing phenotype values (NaN cells); pandas' mean skips them
+            has_nan = True
             for row in vals:
                 for j in range(ncol):
                     if rng.random() < 0.3:
@@ -499,16 +806,49 @@ class C14(Prop):
             perm = list(range(len(gt_names)))
             rng.shuffle(perm)
             case["gt_perm"] = perm
+            if with_grp and use_grp and rng.random() < 0.15:
+                # partially grouped table: every record of some taxa lacks the group label (NaN in a float column)
+                who = {nm for nm in table_names if rng.random() < 0.4}
+                table["grp"] = [None if nm in who else g for nm, g in zip(taxa, grp)]
+                if all(g is None for g in table["grp"]):
+                    table["grp"] = grp
         else:
             case["gt"] = None
             case["gt_perm"] = None
         perm = list(range(len(taxa)))
         rng.shuffle(perm)
         case["row_perm"] = perm
+        if rng.random() < 0.35:
+            f = {}
+            if rng.random() < 0.5:
+                f["trait"] = rng.choice(["str", "tuple", "gen", "nparray"]) if len(tcols) == 1 else \
+                    rng.choice(["tuple", "gen", "nparray"])
+            if rng.random() < 0.4:
+                f["names"] = True                      # custom column names for taxa / group columns
+                case["taxa_col"] = "line"
+                if case["grp_col"] is not None:
+                    case["grp_col"] = "family"
+            if rng.random() < 0.4:
+                f["extra_col"] = True                  # a non-numeric column that is not a trait
+            if rng.random() < 0.5:
+                f["index"] = rng.choice(["shuffled", "str", "offset"])
+            if rng.random() < 0.4:
+                f["taxa_dtype"] = rng.choice(["str", "category"])
+            if int_vals and not has_nan:
+                f["val_dtype"] = "int"
+            if rng.random() < 0.3:
+                f["gt_kind"] = "dpgm"
+            if rng.random() < 0.3:
+                f["miscout"] = True
+            if case["gt"] is not None and case["gt"]["grp"] is not None and rng.random() < 0.3:
+                f["gt_grouped"] = True       # group_taxa() called on the genotype matrix (sorted by group, metadata set)
+            if f:
+                case["forms"] = f
         return case
 
     def _gen_pipeline(self, rng, finding=False):
-        pop = self._pop(rng, n=rng.choice([2, 3, 4, 5]), named=True)
+        mag = rng.choice(["offset25k", "offset1e9", "tiny"]) if rng.random() < 0.12 else None
+        pop = self._pop(rng, n=rng.choice([2, 3, 4, 5]), named=True, mag=mag)
         if finding:
             pop["grp"] = None
         t = self._t(pop)
@@ -516,21 +856,58 @@ class C14(Prop):
         nenv = rng.choice([1, 2, 3])
         perm = list(range(n))
         rng.shuffle(perm)
-        return {"kind": "pipeline", "pop": pop, "nenv": nenv, "nrep": rng.choice([1, 2, 3]),
+        case = {"kind": "pipeline", "pop": pop, "nenv": nenv,
+                "nrep": rng.choice([1, 2, 3]) if rng.random() < 0.6 else [rng.randint(1, 3) for _ in range(nenv)],
                 "var_env": self._variance(rng, t), "var_rep": self._variance(rng, t), "var_err": self._variance(rng, t),
                 "seed": rng.randrange(2 ** 31), "use_grp": True if finding else (pop["grp"] is not None and rng.random() < 0.6),
                 "gt_perm": perm}
+        r = rng.random()
+        if r < 0.25:
+            case["src"] = "true"               # TruePhenotyping frame (one record per taxon) into estimate()
+        elif r < 0.35:
+            case["nenv"], case["nrep"] = 1, 1  # one record per taxon out of the field trial
+        if rng.random() < 0.5:
+            case["frame_op"] = rng.choice(["iloc_perm", "sample", "mask", "reset", "sort_values"])
+            case["frame_seed"] = rng.randrange(2 ** 31)
+        return case
 
     def _gen_stat(self, rng):
-        t = rng.choice([1, 2])
-        pop = self._pop(rng, n=rng.choice([3, 4]))
+        t = rng.choice([1, 2, 3])
+        mag = "offset25k" if rng.random() < 0.2 else None
+        pop = self._pop(rng, n=rng.choice([3, 4]), mag=mag, nphase=2)
         pop.pop("ud", None)
         pop["u"] = [row[:1] * t for row in pop["u"]]
         pop["beta"] = [row[:1] * t for row in pop["beta"]]
         pop["trait"] = None
-        v = lambda: [canon.enc(rng.choice([Fraction(1, 4), 1, 4, 9])) for _ in range(t)]
-        return {"kind": "stat", "pop": pop, "nenv": rng.choice([350, 450]), "nrep": 2,
+        zero_ok = rng.random() < 0.5
+
+        def v():
+            out = [canon.enc(rng.choice([Fraction(1, 4), 1, 4, 9] + ([0] if zero_ok else []))) for _ in range(t)]
+            return out if rng.random() < 0.8 else out[0]
+        r = rng.random()
+        if r < 0.40:
+            nenv, nrep = rng.choice([350, 450]), 2
+        elif r < 0.75:
+            nenv = rng.choice([450, 600])
+            nrep = [rng.choice([1, 2, 3]) for _ in range(nenv)]
+        else:
+            # very many single-replicate environments of few taxa (the replicate effect is then confounded with the
+            # environment effect, its variance must still be in the records)
+            nenv, nrep = 1500, 1
+            pop["geno"] = [[row for row in ph[:2]] for ph in pop["geno"]]
+            for key in ("taxa", "grp"):
+                if pop.get(key) is not None:
+                    pop[key] = pop[key][:2]
+        case = {"kind": "stat", "pop": pop, "nenv": nenv, "nrep": nrep,
                 "var_env": v(), "var_rep": v(), "var_err": v(), "seed": rng.randrange(2 ** 31)}
+        if rng.random() < 0.5:
+            # the protocol is constructed with OTHER variances (and a smaller trial) and brought to the requested
+            # configuration through its setters, in a random order, before the trial is run
+            case["init"] = {"var_env": v(), "var_rep": v(), "var_err": v(), "nenv": 2, "nrep": 1}
+            order = ["var_env", "var_rep", "var_err", "layout"]
+            rng.shuffle(order)
+            case["post"] = order
+        return case
 
     def _gen_reject(self, rng):
         pop = self._pop(rng, n=rng.choice([2, 3]))
@@ -549,22 +926,199 @@ class C14(Prop):
             case["var_err"] = [-1] * t
         return case
 
+    # ---------------------------------------------------------------- histories on one object
+    def _gen_phist(self, rng, d60=False):
+        mag = rng.choice(["offset25k", "tiny"]) if rng.random() < 0.1 else None
+        pop = self._pop(rng, n=rng.choice([2, 3, 3, 4, 5]), mag=mag, nphase=2)
+        t = self._t(pop)
+        n = len(pop["geno"][0])
+        p = len(pop["geno"][0][0])
+        case = {"kind": "phist", "pop": pop, "seed": rng.randrange(2 ** 31)}
+        if rng.random() < 0.5:                # a second population over the same markers (other taxa, other size)
+            nb = rng.choice([2, 3, 4])
+            case["popB"] = {"geno": [[[rng.randint(0, 1) for _ in range(p)] for _ in range(nb)] for _ in range(2)],
+                            "taxa": self._names(rng, nb) if pop["taxa"] is not None else None,
+                            "grp": [rng.randint(1, 3) for _ in range(nb)] if pop["grp"] is not None else None}
+        # a second genomic model of the same shape (other effects, other intercept)
+        case["u2"] = [[rng.choice([-4, -1, 1, 2, 6]) for _ in range(t)] for _ in range(p)]
+        case["beta2"] = [[rng.randint(-5, 20) for _ in range(t)]]
+        if "ud" in pop:
+            case["ud2"] = [[rng.choice([-1, 0, 2]) for _ in range(t)] for _ in range(p)]
+        nenv = rng.choice([1, 2, 3])
+        nrep = rng.choice([1, 2]) if (d60 or rng.random() < 0.5) else [rng.randint(1, 2) for _ in range(nenv)]
+        case["nenv"], case["nrep"] = nenv, nrep
+        zero_start = rng.random() < 0.4
+        for k in ("var_env", "var_rep", "var_err"):
+            case[k] = rng.choice([None, 0]) if zero_start else self._variance(rng, t)
+        pgs = ["A", "B"] if "popB" in case else ["A"]
+        if d60:
+            # the known finding, and nothing else, in these histories: nenv raised over a broadcast scalar nrep
+            case["steps"] = ([{"op": "pheno", "pg": "A"}] if rng.random() < 0.5 else []) + \
+                [{"op": "set", "attr": "nenv", "value": nenv + rng.choice([1, 2])}, {"op": "pheno", "pg": rng.choice(pgs)}]
+            return case
+        forms = self._forms(rng, 0.2)
+        if forms:
+            case["forms"] = forms
+        st = {"nenv": nenv, "npheno": 0}
+        steps = []
+
+        def pheno(pg=None):
+            st["npheno"] += 1
+            return {"op": "pheno", "pg": pg or rng.choice(pgs)}
+
+        def set_h2(pg=None):
+            return {"op": "set_h2", "which": rng.choice(["h2", "h2", "H2"]), "h2": self._h2_value(rng, t),
+                    "pg": pg or rng.choice(pgs)}
+
+        def edit(who):
+            nn = n if who == "A" else len(case["popB"]["geno"][0])
+            if nn >= 2 and rng.random() < 0.5:       # one taxon becomes a clone of another
+                i, j = rng.sample(range(nn), 2)
+                return {"op": "edit", "pg": who, "cells": [[ph, i, k, None, j] for ph in range(2) for k in range(p)]}
+            return {"op": "edit", "pg": who,
+                    "cells": [[rng.randrange(2), rng.randrange(nn), rng.randrange(p), rng.randint(0, 1)]
+                              for _ in range(rng.randint(1, 2 * p))]}
+
+        def setter():
+            """one or two setter calls that leave a consistent configuration"""
+            attr = rng.choice(["nenv", "nrep", "nrep", "var_env", "var_rep", "var_err", "var_err"])
+            if attr == "nenv":
+                new = rng.choice([x for x in (1, 2, 3, 4) if x != st["nenv"]])
+                st["nenv"] = new
+                val = rng.choice([1, 2]) if rng.random() < 0.5 else [rng.randint(1, 2) for _ in range(new)]
+                # the replicate array has to follow (otherwise: the stale configuration of D60 / a clone is rejected)
+                return [{"op": "set", "attr": "nenv", "value": new}, {"op": "set", "attr": "nrep", "value": val}]
+            if attr == "nrep":
+                val = rng.choice([1, 2, 3]) if rng.random() < 0.5 else [rng.randint(1, 3) for _ in range(st["nenv"])]
+                return [{"op": "set", "attr": "nrep", "value": val}]
+            return [{"op": "set", "attr": attr,
+                     "value": rng.choice([None, 0]) if rng.random() < 0.4 else self._variance(rng, t)}]
+
+        def disturb(who):
+            """something that must invalidate whatever the object remembered about the previous call"""
+            r = rng.random()
+            if r < 0.40:
+                return [edit(who)]
+            if r < 0.70:
+                return [{"op": "gpmod"}]
+            if r < 0.85:
+                return setter()
+            return [{"op": "read", "what": rng.choice(["var_A", "var_G", "gegv", "gebv", "attrs"]), "pg": who}, edit(who)]
+
+        for _ in range(rng.randint(1, 3)):
+            r = rng.random()
+            who = rng.choice(pgs)
+            if r < 0.30:        # heritability set, state disturbed, heritability set again on the SAME founder object
+                steps += [set_h2(who)] + disturb(who) + [set_h2(who)]
+                if rng.random() < 0.5:
+                    steps.append(pheno(who))
+            elif r < 0.60:      # trial, state disturbed, trial again on the SAME population object
+                steps += [pheno(who)] + disturb(who) + [pheno(who)]
+            elif r < 0.70:      # a frame returned earlier is overwritten by its owner
+                steps += [pheno(who), {"op": "mutate_out", "which": st["npheno"] - 1}, pheno(who)]
+            elif r < 0.82:      # the protocol is cloned (copy / deepcopy / HDF5 round trip) mid-way
+                steps += setter() + [{"op": "clone", "how": rng.choice(["copy", "deepcopy", "hdf5"])}, pheno(who)]
+            elif r < 0.92:
+                steps += setter() + [pheno(who)] + setter() + [pheno(rng.choice(pgs))]
+            else:
+                steps += [{"op": "read", "what": rng.choice(["var_A", "var_G", "gegv", "gebv", "attrs"]), "pg": who},
+                          set_h2(who), pheno(who)]
+        case["steps"] = steps
+        return case
+
+    def _h2_value(self, rng, t):
+        targets = self.H2_TARGETS[:10]
+        return canon.enc(rng.choice(targets)) if rng.random() < 0.6 else [canon.enc(rng.choice(targets)) for _ in range(t)]
+
+    def _gen_ehist(self, rng):
+        base = self._gen_meanbv(rng)
+        while base["gt"] is None or any(v is None for row in base["table"]["vals"] for v in row) \
+                or len(base["table"]["taxa"]) > 40 or (base["table"]["grp"] is not None and None in base["table"]["grp"]):
+            base = self._gen_meanbv(rng)
+        other = self._gen_meanbv(rng)
+        while any(v is None for row in other["table"]["vals"] for v in row) or len(other["table"]["taxa"]) > 40 \
+                or (other["table"]["grp"] is not None and None in other["table"]["grp"]):
+            other = self._gen_meanbv(rng)
+        t0 = base["table"]
+        # the second table carries the columns of the first (so that one estimator configuration serves both) and shares
+        # some taxa with it
+        t1 = dict(other["table"])
+        t1["cols"] = list(t0["cols"])
+        ncol = len(t0["cols"])
+        t1["vals"] = [[canon.enc(Fraction(rng.randint(-40, 40), 2)) for _ in range(ncol)] for _ in t1["taxa"]]
+        names0 = sorted(set(t0["taxa"]))
+        ren = {nm: rng.choice(names0) for nm in set(t1["taxa"]) if rng.random() < 0.5}
+        gm0 = {}
+        if t0["grp"] is not None:
+            for nm, g in zip(t0["taxa"], t0["grp"]):
+                gm0[nm] = g
+        t1["taxa"] = [ren.get(nm, nm) for nm in t1["taxa"]]
+        if t0["grp"] is None:
+            t1["grp"] = None
+        else:
+            # one group label per name in the second table too (taxon identity = name)
+            gm1 = {}
+            for nm in t1["taxa"]:
+                gm1.setdefault(nm, gm0.get(nm, rng.randint(1, 4)))
+            t1["grp"] = [gm1[nm] for nm in t1["taxa"]]
+        case = {"kind": "ehist", "tables": [t0, t1], "gt": base["gt"], "taxa_col": "taxa", "grp_col": base["grp_col"] and "taxa_grp",
+                "trait_cols": base["trait_cols"]}
+        steps = [{"op": "est", "table": 0, "gt": True}]
+        nest = 1
+        for _ in range(rng.randint(2, 5)):
+            r = rng.random()
+            if r < 0.30:
+                tb = rng.randrange(2)
+                tab = case["tables"][tb]
+                cells = [[rng.randrange(len(tab["taxa"])), rng.choice(tab["cols"]), canon.enc(Fraction(rng.randint(-80, 80), 2))]
+                         for _ in range(rng.randint(1, 4))]
+                steps.append({"op": "edit", "table": tb, "cells": cells})
+                steps.append({"op": "est", "table": tb, "gt": rng.random() < 0.8})
+                nest += 1
+            elif r < 0.45:
+                tb = rng.randrange(2)
+                steps.append({"op": "relabel", "table": tb, "row": rng.randrange(len(case["tables"][tb]["taxa"])),
+                              "to": rng.choice(names0)})
+                steps.append({"op": "est", "table": tb, "gt": True})
+                nest += 1
+            elif r < 0.60:
+                steps.append({"op": "set", "attr": "trait_cols", "value": rng.sample(t0["cols"], rng.randint(1, ncol))})
+                steps.append({"op": "est", "table": rng.randrange(2), "gt": True})
+                nest += 1
+            elif r < 0.70 and t0["grp"] is not None:
+                steps.append({"op": "set", "attr": "taxa_grp_col", "value": rng.choice([None, "taxa_grp"])})
+                steps.append({"op": "est", "table": rng.randrange(2), "gt": True})
+                nest += 1
+            elif r < 0.80:
+                steps.append({"op": "zero_out", "which": rng.randrange(nest)})
+            else:
+                steps.append({"op": "est", "table": rng.randrange(2), "gt": rng.random() < 0.8})
+                nest += 1
+        case["steps"] = steps
+        return case
+
     def generate(self, rng, n, tier):
         out = []
         for i in range(n):
             r = rng.random()
             if r < 0.03:
                 out.append(self._gen_reject(rng))
-            elif r < 0.40:
+            elif r < 0.36:
                 out.append(self._gen_pheno(rng))
-            elif r < 0.55:
+            elif r < 0.50:
                 out.append(self._gen_h2(rng))
-            elif r < 0.85:
+            elif r < 0.76:
                 out.append(self._gen_meanbv(rng))
-            elif r < 0.96:
+            elif r < 0.855:
                 out.append(self._gen_pipeline(rng))
-            elif r < 0.975:
+            elif r < 0.87:
                 out.append(self._gen_pipeline(rng, finding=True))
+            elif r < 0.925:
+                out.append(self._gen_phist(rng))
+            elif r < 0.935:
+                out.append(self._gen_phist(rng, d60=True))
+            elif r < 0.975:
+                out.append(self._gen_ehist(rng))
             else:
                 out.append(self._gen_stat(rng))
         return out
@@ -601,20 +1155,70 @@ class C14(Prop):
     # ================================================================================ implementation
     def _protocol(self, m, case, gm, rng_obj):
         t = self._t(case["pop"])
-        return m["gep"].G_E_Phenotyping(
-            gm, nenv=int(case["nenv"]), nrep=_nrep_arg(case["nrep"]),
-            var_env=_var(case.get("var_env"), t), var_rep=_var(case.get("var_rep"), t),
-            var_err=_var(case.get("var_err"), t), rng=rng_obj)
+        f = case.get("forms") or {}
+        nenv = int(case["nenv"])
+        if f.get("nenv") == "np64":
+            nenv = numpy.int64(nenv)
+        elif f.get("nenv") == "np32":
+            nenv = numpy.int32(nenv)
+        vf = f.get("var")
+        pt = m["gep"].G_E_Phenotyping(
+            gm, nenv=nenv, nrep=_nrep_arg(case["nrep"], f.get("nrep")),
+            var_env=_var(case.get("var_env"), t, vf), var_rep=_var(case.get("var_rep"), t, vf),
+            var_err=_var(case.get("var_err"), t, vf), rng=rng_obj)
+        return self._via(m, pt, f.get("via"), gm, rng_obj)
+
+    @staticmethod
+    def _via(m, pt, how, gm, rng_obj):
+        """the same protocol reached through a secondary route: copy(), deepcopy(), to_hdf5() + from_hdf5()"""
+        if how == "copy":
+            pt = pt.copy()
+        elif how == "deepcopy":
+            pt = pt.deepcopy()
+        elif how == "hdf5":
+            fd, fn = tempfile.mkstemp(suffix=".h5", prefix="c14_")
+            os.close(fd)
+            os.remove(fn)
+            try:
+                pt.to_hdf5(fn)
+                pt = m["gep"].G_E_Phenotyping.from_hdf5(fn, gpmod=pt.gpmod)
+            finally:
+                if os.path.exists(fn):
+                    os.remove(fn)
+            pt.rng = rng_obj
+        return pt
 
     def _trait_names(self, df):
         return [c for c in df.columns if c not in ("taxa", "taxa_grp", "env", "rep")]
+
+    def _observe_pheno(self, m, pg, gm, pt, g, tp, tbv, log_from=0, miscout=False):
+        """one phenotype() call on `pt` + the noiseless protocols, in the shape the `pheno` judge reads"""
+        geno0 = pg.mat.copy()
+        df = pt.phenotype(pg, miscout={}) if miscout else pt.phenotype(pg)
+        gv = gm.gegv(pg).unscale()
+        tcols = self._trait_names(df)
+        tdf = tp.phenotype(pg)
+        tb = tbv.estimate(None, pg)
+        log = [] if g is None else g.log[log_from:]
+        draws = [] if g is None else g.draws[log_from:]
+        obs = {"cols": [str(c) for c in df.columns], "rows": _frame_rows(df, tcols),
+               "gv": canon.enc(gv), "nrep": [int(x) for x in pt.nrep], "nenv_attr": int(pt.nenv),
+               "var": {kk: canon.enc(getattr(pt, kk)) for kk in ("var_env", "var_rep", "var_err")},
+               "log": log, "draws": _enc_draws(draws), "leftover": 0 if g is None else len(g.script),
+               "true_cols": [str(c) for c in tdf.columns],
+               "true_rows": _frame_rows(tdf, [c for c in tdf.columns if c not in ("taxa", "taxa_grp")]),
+               "truebv": _bv_obs(tb),
+               "input_untouched": bool((geno0 == pg.mat).all())}
+        return obs, df
 
     def run_impl(self, case):
         m = _mods()
         k = case["kind"]
         if k == "pheno":
             pg, gm = _population(m, case["pop"])
-            if case["mode"] == "scripted":
+            if case.get("rng_none"):
+                g = None
+            elif case["mode"] == "scripted":
                 g = _Scripted(_flatten_script(case["script"]))
             elif case.get("legacy_rng"):
                 g = _RecordingRS(case["seed"])
@@ -623,25 +1227,24 @@ class C14(Prop):
             pt = self._protocol(m, case, gm, g)
             if case.get("nenv_after") is not None:
                 pt.nenv = int(case["nenv_after"])         # public setter, after construction
-            geno0 = pg.mat.copy()
-            df = pt.phenotype(pg)
-            gv = gm.gegv(pg).unscale()
-            tcols = self._trait_names(df)
-            tdf = m["tp"].TruePhenotyping(gm).phenotype(pg)
-            tbv = m["tbv"].TrueBreedingValue(gm).estimate(None, pg)
-            return {"cols": [str(c) for c in df.columns], "rows": _frame_rows(df, tcols),
-                    "gv": canon.enc(gv), "nrep": [int(x) for x in pt.nrep],
-                    "var": {kk: canon.enc(getattr(pt, kk)) for kk in ("var_env", "var_rep", "var_err")},
-                    "log": g.log, "draws": _enc_draws(g.draws), "leftover": len(g.script),
-                    "true_cols": [str(c) for c in tdf.columns],
-                    "true_rows": _frame_rows(tdf, [c for c in tdf.columns if c not in ("taxa", "taxa_grp")]),
-                    "truebv": _bv_obs(tbv),
-                    "input_untouched": bool((geno0 == pg.mat).all())}
+            args = (m["tp"].TruePhenotyping(gm), m["tbv"].TrueBreedingValue(gm))
+            mo = bool((case.get("forms") or {}).get("miscout"))
+            try:
+                obs, _ = self._observe_pheno(m, pg, gm, pt, g, *args, miscout=mo)
+            except Exception as e:
+                if case["mode"] != "scripted":
+                    raise
+                # the scripted stream assumes the call order of the model; a rewrite that draws in another order is a broken
+                # correspondence, not a crash of the code: observe the same configuration with a genuine generator
+                g2 = _Recording(20240914)
+                pt.rng = g2
+                obs, _ = self._observe_pheno(m, pg, gm, pt, g2, *args, miscout=mo)
+                obs["script_failed"] = f"{type(e).__name__}: {e}"[:200]
+            return obs
         if k == "h2":
             pg, gm = _population(m, case["pop"])
             pt = m["gep"].G_E_Phenotyping(gm, nenv=1, nrep=1, rng=numpy.random.default_rng(0))
-            h2 = case["h2"]
-            arg = numpy.array([_f(v) for v in h2], dtype=float) if isinstance(h2, list) else _f(h2)
+            arg = self._h2_arg(case["h2"], case.get("h2_form"))
             if case["which"] == "h2":
                 va = gm.var_A(pg)
                 pt.set_h2(arg, pg)
@@ -652,23 +1255,13 @@ class C14(Prop):
         if k == "meanbv":
             return self._run_meanbv(m, case)
         if k == "pipeline":
-            pg, gm = _population(m, case["pop"])
-            pt = self._protocol(m, case, gm, numpy.random.default_rng(int(case["seed"])))
-            df = pt.phenotype(pg)
-            tcols = self._trait_names(df)
-            perm = case["gt_perm"]
-            gt = m["dgm"].DenseGenotypeMatrix(
-                numpy.zeros((len(perm), 1), dtype="int8"),
-                taxa=numpy.array([case["pop"]["taxa"][i] for i in perm], dtype=object),
-                taxa_grp=None if case["pop"]["grp"] is None else numpy.array([case["pop"]["grp"][i] for i in perm], dtype=int))
-            est = m["mbv"].MeanPhenotypicBreedingValue("taxa", "taxa_grp" if case["use_grp"] else None, tcols)
-            bv = est.estimate(df, gt)
-            return {"rows": _frame_rows(df, tcols), "tcols": [str(c) for c in tcols], "bv": _bv_obs(bv),
-                    "gt_taxa": [str(x) for x in gt.taxa],
-                    "gt_grp": None if gt.taxa_grp is None else [int(x) for x in gt.taxa_grp],
-                    "gv": canon.enc(gm.gegv(pg).unscale())}
+            return self._run_pipeline(m, case)
         if k == "stat":
             return self._run_stat(m, case)
+        if k == "phist":
+            return self._run_phist(m, case)
+        if k == "ehist":
+            return self._run_ehist(m, case)
         if k == "reject":
             pg, gm = _population(m, case["pop"])
             t = self._t(case["pop"])
@@ -688,52 +1281,174 @@ class C14(Prop):
                 return {"raised": canon.exc_tag(e)}
         raise ValueError(k)
 
-    def _table_df(self, m, table, order=None):
-        pandas = m["pandas"]
-        idx = list(range(len(table["taxa"]))) if order is None else list(order)
-        d = {"taxa": numpy.array([table["taxa"][i] for i in idx], dtype=object)}
-        if table.get("grp") is None:
-            d["taxa_grp"] = None                      # what phenotype() emits for an ungrouped population
+    @staticmethod
+    def _h2_arg(h2, form=None):
+        if isinstance(h2, list):
+            vals = [Fraction(v) for v in h2]
+            if form == "f32array" and all(Fraction(float(numpy.float32(float(v)))) == v for v in vals):
+                return numpy.array([float(v) for v in vals], dtype="float32")
+            return numpy.array([float(v) for v in vals], dtype=float)
+        v = Fraction(h2)
+        if form == "int" and v == 1:
+            return 1
+        if form == "np32" and Fraction(float(numpy.float32(float(v)))) == v:
+            return numpy.float32(float(v))
+        if form == "np64":
+            return numpy.float64(float(v))
+        return float(v)
+
+    # ---------------------------------------------------------------- pipeline
+    def _run_pipeline(self, m, case):
+        pg, gm = _population(m, case["pop"])
+        if case.get("src") == "true":
+            df = m["tp"].TruePhenotyping(gm).phenotype(pg)
+            tcols = [c for c in df.columns if c not in ("taxa", "taxa_grp")]
+            if "taxa_grp" not in df.columns:
+                df["taxa_grp"] = None
         else:
-            d["taxa_grp"] = numpy.array([table["grp"][i] for i in idx], dtype=int)
+            pt = self._protocol(m, case, gm, numpy.random.default_rng(int(case["seed"])))
+            df = pt.phenotype(pg)
+            tcols = self._trait_names(df)
+        rows0 = _frame_rows(df, tcols)
+        op = case.get("frame_op")
+        fr = numpy.random.default_rng(int(case.get("frame_seed", 0)))
+        if op == "iloc_perm":
+            df = df.iloc[fr.permutation(len(df))]                # rows permuted, index labels kept
+        elif op == "sample":
+            df = df.sample(frac=1.0, random_state=int(case.get("frame_seed", 0)))
+        elif op == "mask":
+            keep = fr.random(len(df)) < 0.6
+            keep[int(fr.integers(len(df)))] = True
+            df = df[keep]                                          # a subset, index labels kept
+        elif op == "reset":
+            df = df.iloc[fr.permutation(len(df))].reset_index(drop=True)
+        elif op == "sort_values":
+            df = df.sort_values(by=[tcols[0], "taxa"], kind="stable")
+        perm = case["gt_perm"]
+        gt = m["dgm"].DenseGenotypeMatrix(
+            numpy.zeros((len(perm), 1), dtype="int8"),
+            taxa=numpy.array([case["pop"]["taxa"][i] for i in perm], dtype=object),
+            taxa_grp=None if case["pop"]["grp"] is None else numpy.array([case["pop"]["grp"][i] for i in perm], dtype=int))
+        est = m["mbv"].MeanPhenotypicBreedingValue("taxa", "taxa_grp" if case["use_grp"] else None, tcols)
+        bv = est.estimate(df, gt)
+        return {"rows": rows0, "rows_est": _frame_rows(df, tcols), "tcols": [str(c) for c in tcols], "bv": _bv_obs(bv),
+                "gt_taxa": [str(x) for x in gt.taxa],
+                "gt_grp": None if gt.taxa_grp is None else [int(x) for x in gt.taxa_grp],
+                "gv": canon.enc(gm.gegv(pg).unscale())}
+
+    # ---------------------------------------------------------------- mean-phenotype estimation
+    def _table_df(self, m, table, order=None, taxa_col="taxa", grp_name="taxa_grp", forms=None):
+        pandas = m["pandas"]
+        forms = forms or {}
+        idx = list(range(len(table["taxa"]))) if order is None else list(order)
+        d = {taxa_col: numpy.array([table["taxa"][i] for i in idx], dtype=object)}
+        if table.get("grp") is None:
+            d[grp_name] = None                      # what phenotype() emits for an ungrouped population
+        elif any(g is None for g in table["grp"]):
+            d[grp_name] = numpy.array([float("nan") if table["grp"][i] is None else float(table["grp"][i]) for i in idx])
+        else:
+            d[grp_name] = numpy.array([table["grp"][i] for i in idx], dtype=int)
         d["env"] = numpy.array([table["env"][i] for i in idx], dtype=int)
         d["rep"] = numpy.array([table["rep"][i] for i in idx], dtype=int)
+        if forms.get("extra_col"):
+            d["note"] = numpy.array([f"plot {i}" for i in idx], dtype=object)
         for j, c in enumerate(table["cols"]):
-            d[c] = numpy.array([float("nan") if table["vals"][i][j] is None else _f(table["vals"][i][j]) for i in idx],
-                               dtype=float)
-        return pandas.DataFrame(d)
+            col = [float("nan") if table["vals"][i][j] is None else _f(table["vals"][i][j]) for i in idx]
+            if forms.get("val_dtype") == "int":
+                d[c] = numpy.array([int(v) for v in col], dtype="int64")
+            else:
+                d[c] = numpy.array(col, dtype=float)
+        df = pandas.DataFrame(d)
+        if forms.get("taxa_dtype") == "str":
+            df[taxa_col] = df[taxa_col].astype("str")
+        elif forms.get("taxa_dtype") == "category":
+            df[taxa_col] = df[taxa_col].astype("category")
+        ix = forms.get("index")
+        if ix == "shuffled":
+            lab = list(range(len(df)))
+            numpy.random.default_rng(len(df)).shuffle(lab)
+            df.index = lab
+        elif ix == "str":
+            df.index = [f"r{i}" for i in range(len(df))][::-1]
+        elif ix == "offset":
+            df.index = [1000 + 3 * i for i in range(len(df))]
+        return df
 
-    def _gt(self, m, gt, order=None):
+    def _gt(self, m, gt, order=None, kind=None, grouped=False):
         idx = list(range(len(gt["taxa"]))) if order is None else list(order)
-        return m["dgm"].DenseGenotypeMatrix(
-            numpy.zeros((len(idx), 1), dtype="int8"),
-            taxa=numpy.array([gt["taxa"][i] for i in idx], dtype=object),
-            taxa_grp=None if gt.get("grp") is None else numpy.array([gt["grp"][i] for i in idx], dtype=int))
-
-    def _run_meanbv(self, m, case):
-        est = m["mbv"].MeanPhenotypicBreedingValue(case["taxa_col"], case["grp_col"], list(case["trait_cols"]))
-        df = self._table_df(m, case["table"])
-        snap = df.copy(deep=True)
-        gt = None if case.get("gt") is None else self._gt(m, case["gt"])
-        out = {"base": _bv_obs(est.estimate(df, gt))}
-        out["input_untouched"] = bool(snap.equals(df))
-        dfp = self._table_df(m, case["table"], case["row_perm"])
-        out["rowperm"] = _bv_obs(est.estimate(dfp, gt))
-        if gt is not None and case.get("gt_perm") is not None:
-            out["gtperm"] = _bv_obs(est.estimate(df, self._gt(m, case["gt"], case["gt_perm"])))
+        taxa = numpy.array([gt["taxa"][i] for i in idx], dtype=object)
+        grp = None if gt.get("grp") is None else numpy.array([gt["grp"][i] for i in idx], dtype=int)
+        if kind == "dpgm":
+            out = m["dpgm"].DensePhasedGenotypeMatrix(numpy.zeros((2, len(idx), 1), dtype="int8"), taxa=taxa, taxa_grp=grp)
+        else:
+            out = m["dgm"].DenseGenotypeMatrix(numpy.zeros((len(idx), 1), dtype="int8"), taxa=taxa, taxa_grp=grp)
+        if grouped and grp is not None:
+            out.group_taxa()
         return out
 
+    @staticmethod
+    def _gt_seen(gt):
+        """the labels of the genotype matrix AS SUPPLIED (after an optional group_taxa())"""
+        return {"taxa": [str(x) for x in gt.taxa], "grp": None if gt.taxa_grp is None else [int(x) for x in gt.taxa_grp]}
+
+    @staticmethod
+    def _trait_arg(tcols, form):
+        if form == "str" and len(tcols) == 1:
+            return tcols[0]
+        if form == "tuple":
+            return tuple(tcols)
+        if form == "gen":
+            return (c for c in tcols)
+        if form == "nparray":
+            return numpy.array(tcols, dtype=object)
+        return list(tcols)
+
+    def _run_meanbv(self, m, case):
+        f = case.get("forms") or {}
+        grp_name = case["grp_col"] if case["grp_col"] is not None else ("family" if f.get("names") else "taxa_grp")
+        est = m["mbv"].MeanPhenotypicBreedingValue(case["taxa_col"], case["grp_col"], self._trait_arg(case["trait_cols"], f.get("trait")))
+        kw = {"miscout": {}} if f.get("miscout") else {}
+        mk = lambda order=None: self._table_df(m, case["table"], order, case["taxa_col"], grp_name, f)
+        df = mk()
+        snap = df.copy(deep=True)
+        gg = bool(f.get("gt_grouped"))
+        gt = None if case.get("gt") is None else self._gt(m, case["gt"], None, f.get("gt_kind"), gg)
+        out = {}
+        if gt is not None:
+            out["gt_seen"] = self._gt_seen(gt)
+        out["base"] = _bv_obs(est.estimate(df, gt, **kw))
+        out["input_untouched"] = bool(snap.equals(df))
+        dfp = mk(case["row_perm"])
+        out["rowperm"] = _bv_obs(est.estimate(dfp, gt, **kw))
+        if gt is not None and case.get("gt_perm") is not None:
+            gt2 = self._gt(m, case["gt"], case["gt_perm"], f.get("gt_kind"), gg)
+            out["gt_seen_perm"] = self._gt_seen(gt2)
+            out["gtperm"] = _bv_obs(est.estimate(df, gt2, **kw))
+        return out
+
+    # ---------------------------------------------------------------- statistical stream
     def _run_stat(self, m, case):
         pg, gm = _population(m, case["pop"])
         g = _Recording(case["seed"])
-        pt = self._protocol(m, case, gm, g)
+        if case.get("init"):
+            pt = self._protocol(m, dict(case, **case["init"]), gm, g)
+            tt = self._t(case["pop"])
+            for what in case["post"]:
+                if what == "layout":
+                    pt.nenv = int(case["nenv"])
+                    pt.nrep = _nrep_arg(case["nrep"])
+                else:
+                    setattr(pt, what, _var(case[what], tt))
+        else:
+            pt = self._protocol(m, case, gm, g)
         df = pt.phenotype(pg)
         gv = gm.gegv(pg).unscale()
         tcols = self._trait_names(df)
         n, t = gv.shape
-        nenv, nrep = int(case["nenv"]), int(case["nrep"])
+        nenv = int(case["nenv"])
+        lay = _nrep_list(nenv, case["nrep"])
         vals = df[tcols].to_numpy(dtype=float)
-        ok_shape = vals.shape == (n * nenv * nrep, t)
+        ok_shape = vals.shape == (n * sum(lay), t)
         res = {"shape_ok": bool(ok_shape), "n": n, "t": t}
         if not ok_shape:
             return res
@@ -747,17 +1462,221 @@ class C14(Prop):
         cells = {}
         for k in range(len(names)):
             cells.setdefault((int(env[k]), int(rep[k])), []).append(resid[k])
+        cells_ok = sorted(cells) == [(e + 1, r + 1) for e, kk in enumerate(lay) for r in range(kk)] and \
+            all(len(v) == n for v in cells.values())
+        res["cells_ok"] = bool(cells_ok)
+        if not cells_ok:
+            return res
         cm = {c: numpy.mean(v, axis=0) for c, v in cells.items()}
         within = numpy.mean([numpy.var(v, axis=0, ddof=1) for v in cells.values()], axis=0)       # -> var_err
-        envs = sorted({c[0] for c in cells})
-        rep_var = numpy.mean([numpy.var([cm[(e, r)] for r in range(1, nrep + 1)], axis=0, ddof=1) for e in envs],
-                             axis=0)                                                            # -> var_rep + var_err/n
-        em = numpy.array([numpy.mean([cm[(e, r)] for r in range(1, nrep + 1)], axis=0) for e in envs])
-        env_var = numpy.var(em, axis=0, ddof=1)                                  # -> var_env + var_rep/nrep + var_err/(n nrep)
-        res.update({"within": within.tolist(), "rep_var": rep_var.tolist(), "env_var": env_var.tolist(),
-                    "ncell": len(cells), "nenv_seen": len(envs),
+        # pooled over the environments with >= 2 replicates                                        -> var_rep + var_err/n
+        num, den = numpy.zeros(t), 0
+        for e, kk in enumerate(lay):
+            if kk >= 2:
+                num += (kk - 1) * numpy.var([cm[(e + 1, r + 1)] for r in range(kk)], axis=0, ddof=1)
+                den += kk - 1
+        rep_var = num / max(den, 1)
+        em = numpy.array([numpy.mean([cm[(e + 1, r + 1)] for r in range(kk)], axis=0) for e, kk in enumerate(lay)])
+        # environments with the same replicate count k are identically distributed: per class -> var_env + (var_rep + var_err/n)/k
+        env_var = {}
+        for kk in sorted(set(lay)):
+            sel = [e for e, k2 in enumerate(lay) if k2 == kk]
+            if len(sel) >= 20:
+                env_var[str(kk)] = {"est": numpy.var(em[sel], axis=0, ddof=1).tolist(), "df": len(sel) - 1}
+        res.update({"within": within.tolist(), "rep_var": rep_var.tolist(), "rep_df": int(den), "env_var": env_var,
+                    "gvmax": float(numpy.abs(gv).max()),
                     "cov_ok": self._cov_ok(g.log, case, n, t)[0]})
         return res
+
+    # ---------------------------------------------------------------- histories
+    @staticmethod
+    def _pop_state(case):
+        """mutable copy of the populations / models of a `phist` case"""
+        pop = case["pop"]
+        A = {"geno": [[list(r) for r in ph] for ph in pop["geno"]], "taxa": pop["taxa"], "grp": pop["grp"]}
+        B = None
+        if case.get("popB") is not None:
+            pb = case["popB"]
+            B = {"geno": [[list(r) for r in ph] for ph in pb["geno"]], "taxa": pb["taxa"], "grp": pb["grp"]}
+        gm1 = {"beta": pop["beta"], "u": pop["u"], "ud": pop.get("ud"), "trait": pop["trait"]}
+        gm2 = {"beta": case["beta2"], "u": case["u2"], "ud": case.get("ud2") if pop.get("ud") is not None else None,
+               "trait": pop["trait"]}
+        return {"A": A, "B": B}, [gm1, gm2]
+
+    @staticmethod
+    def _pseudo_pop(ps, gmj):
+        q = {"geno": [[list(r) for r in ph] for ph in ps["geno"]], "taxa": ps["taxa"], "grp": ps["grp"],
+             "trait": gmj["trait"], "beta": gmj["beta"], "u": gmj["u"]}
+        if gmj.get("ud") is not None:
+            q["ud"] = gmj["ud"]
+        return q
+
+    def _run_phist(self, m, case):
+        pops, gms = self._pop_state(case)
+        t = self._t(case["pop"])
+        objs = {}
+        for key in ("A", "B"):
+            if pops[key] is not None:
+                objs[key], _ = _population(m, self._pseudo_pop(pops[key], gms[0]))
+        _, gmo1 = _population(m, self._pseudo_pop(pops["A"], gms[0]))
+        _, gmo2 = _population(m, self._pseudo_pop(pops["A"], gms[1]))
+        gmobj = [gmo1, gmo2]
+        cur = 0
+        g = _Recording(case["seed"])
+        pt = self._protocol(m, case, gmobj[0], g)
+        tp = m["tp"].TruePhenotyping(gmobj[0])
+        tbv = m["tbv"].TrueBreedingValue(gmobj[0])
+        # the configuration as the harness tracks it: requested layout + as-is replicate array + variances
+        st = {"nenv": int(case["nenv"]), "arr": _nrep_list(case["nenv"], case["nrep"]),
+              "scalar": None if isinstance(case["nrep"], list) else int(case["nrep"]),
+              "var_env": case.get("var_env"), "var_rep": case.get("var_rep"), "var_err": case.get("var_err")}
+        out_steps = []
+        frames = []        # (data frame, snapshot of its rows, mutated?)
+        vf = (case.get("forms") or {}).get("var")
+        for s in case["steps"]:
+            op = s["op"]
+            if op == "pheno":
+                pg = objs[s["pg"]]
+                obs, df = self._observe_pheno(m, pg, gmobj[cur], pt, g, tp, tbv, log_from=len(g.log))
+                pc = {"kind": "pheno", "pop": self._pseudo_pop(pops[s["pg"]], gms[cur]), "mode": "real",
+                      "nenv": len(st["arr"]), "nrep": st["scalar"] if st["scalar"] is not None else list(st["arr"]),
+                      "var_env": st["var_env"], "var_rep": st["var_rep"], "var_err": st["var_err"]}
+                if st["nenv"] != len(st["arr"]):
+                    pc["nenv_after"] = st["nenv"]
+                out_steps.append({"type": "pheno", "case": pc, "obs": obs})
+                frames.append([df, _frame_rows(df, self._trait_names(df)), False])
+            elif op == "set":
+                attr, val = s["attr"], s["value"]
+                if attr == "nenv":
+                    pt.nenv = int(val)
+                    st["nenv"] = int(val)
+                elif attr == "nrep":
+                    pt.nrep = _nrep_arg(val)
+                    st["arr"] = _nrep_list(st["nenv"], val)
+                    st["scalar"] = None if isinstance(val, list) else int(val)
+                else:
+                    setattr(pt, attr, _var(val, t, vf))
+                    st[attr] = val
+            elif op == "set_h2":
+                pg = objs[s["pg"]]
+                arg = self._h2_arg(s["h2"])
+                dom = s["which"] == "H2"
+                if dom:
+                    va = gmobj[cur].var_G(pg)
+                    pt.set_H2(arg, pg)
+                else:
+                    va = gmobj[cur].var_A(pg)
+                    pt.set_h2(arg, pg)
+                pp = self._pseudo_pop(pops[s["pg"]], gms[cur])
+                pc = {"kind": "h2", "pop": pp, "which": s["which"], "h2": s["h2"]}
+                out_steps.append({"type": "h2", "case": pc,
+                                  "obs": {"varA": canon.enc(va), "varErr": canon.enc(pt.var_err),
+                                          "gv": canon.enc(gmobj[cur].gegv(pg).unscale())}})
+                h2 = [Fraction(x) for x in (s["h2"] if isinstance(s["h2"], list) else [s["h2"]] * t)]
+                st["var_err"] = [canon.enc((1 - h) / h * v) for h, v in zip(h2, _var_exact(pp, dom))]
+            elif op == "edit":
+                pg = objs[s["pg"]]
+                ps = pops[s["pg"]]
+                for c in s["cells"]:
+                    ph, i, kk = c[0], c[1], c[2]
+                    val = ps["geno"][ph][c[4]][kk] if len(c) > 4 else c[3]
+                    pg.mat[ph, i, kk] = val            # in place: the same Python object is handed to later calls
+                    ps["geno"][ph][i][kk] = int(val)
+            elif op == "gpmod":
+                cur = 1 - cur
+                pt.gpmod = gmobj[cur]
+                tp.gpmod = gmobj[cur]
+                tbv.gpmod = gmobj[cur]
+            elif op == "read":
+                pg = objs[s["pg"]]
+                w = s["what"]
+                if w == "var_A":
+                    pt.gpmod.var_A(pg)
+                elif w == "var_G":
+                    pt.gpmod.var_G(pg)
+                elif w == "gegv":
+                    pt.gpmod.gegv(pg).unscale()
+                elif w == "gebv":
+                    pt.gpmod.gebv(pg).unscale()
+                else:
+                    (pt.nenv, pt.nrep.sum(), pt.var_env.sum(), pt.var_rep.sum(), pt.var_err.sum(), pg.taxa, pg.taxa_grp)
+            elif op == "clone":
+                pt = self._via(m, pt, s["how"], gmobj[cur], g)
+                if s["how"] == "deepcopy":
+                    pt.gpmod = gmobj[cur]              # keep ONE model object per model (later `gpmod` steps toggle them)
+                # the stored replicate array survives a clone as an array
+                if st["scalar"] is not None and st["nenv"] == len(st["arr"]):
+                    pass
+            elif op == "mutate_out":
+                fr = frames[s["which"]]
+                df = fr[0]
+                tc = self._trait_names(df)
+                df.loc[:, tc] = df[tc].to_numpy() * 0.0 - 12345.0
+                df.loc[:, "taxa"] = "overwritten"
+                df.loc[:, "env"] = 0
+                fr[2] = True
+            else:
+                raise ValueError(op)
+        stable = all(mut or _frame_rows(df, self._trait_names(df)) == snap for df, snap, mut in frames)
+        return {"steps": out_steps, "stable": bool(stable)}
+
+    @staticmethod
+    def _est_tables(case):
+        return json.loads(json.dumps(case["tables"]))
+
+    def _run_ehist(self, m, case):
+        tabs = self._est_tables(case)
+        dfs = [self._table_df(m, tb) for tb in tabs]
+        gmaps = []
+        for tb in tabs:
+            gm_ = {}
+            if tb.get("grp") is not None:
+                for nm, gval in zip(tb["taxa"], tb["grp"]):
+                    gm_[nm] = gval
+            gmaps.append(gm_)
+        gt = self._gt(m, case["gt"])
+        est = m["mbv"].MeanPhenotypicBreedingValue(case["taxa_col"], case["grp_col"], list(case["trait_cols"]))
+        cfg = {"grp_col": case["grp_col"], "trait_cols": list(case["trait_cols"])}
+        outs = []          # (matrix object, observation at the time, zeroed?)
+        steps = []
+        for s in case["steps"]:
+            op = s["op"]
+            if op == "est":
+                tb = tabs[s["table"]]
+                bv = est.estimate(dfs[s["table"]], gt if s["gt"] else None)
+                o = _bv_obs(bv)
+                outs.append([bv, o, False])
+                steps.append({"table": json.loads(json.dumps(tb)),
+                              "grp_col": cfg["grp_col"], "trait_cols": list(cfg["trait_cols"]), "gt": bool(s["gt"]), "out": o})
+            elif op == "edit":
+                tb, df = tabs[s["table"]], dfs[s["table"]]
+                for row, col, val in s["cells"]:
+                    df.loc[df.index[row], col] = _f(val)            # the SAME data-frame object, edited in place
+                    tb["vals"][row][tb["cols"].index(col)] = val
+            elif op == "relabel":
+                tb, df = tabs[s["table"]], dfs[s["table"]]
+                row, to = s["row"], s["to"]
+                df.loc[df.index[row], "taxa"] = to
+                tb["taxa"][row] = to
+                if tb.get("grp") is not None:
+                    gval = gmaps[s["table"]].setdefault(to, tb["grp"][row])
+                    df.loc[df.index[row], "taxa_grp"] = gval
+                    tb["grp"][row] = gval
+            elif op == "set":
+                if s["attr"] == "trait_cols":
+                    est.trait_cols = list(s["value"])
+                    cfg["trait_cols"] = list(s["value"])
+                else:
+                    est.taxa_grp_col = s["value"]
+                    cfg["grp_col"] = s["value"]
+            elif op == "zero_out":
+                o = outs[s["which"]]
+                o[0].mat[...] = 0.0
+                o[2] = True
+            else:
+                raise ValueError(op)
+        stable = all(z or _bv_obs(bv) == o for bv, o, z in outs)
+        return {"steps": steps, "stable": bool(stable)}
 
     # ================================================================================ requests
     @staticmethod
@@ -767,6 +1686,24 @@ class C14(Prop):
         return [{"taxa": table["taxa"][i], "grp": None if table.get("grp") is None else table["grp"][i],
                  "env": table["env"][i], "rep": table["rep"][i], "vals": [table["vals"][i][j] for j in cj]} for i in idx]
 
+    def _est_requests(self, recs, tc, use, gt, outs):
+        """model + Spec requests for estimate() outputs `outs` = [(observation, genotype order or None)] on one table"""
+        sfx = "_nan" if any(v is None for r in recs for v in r["vals"]) else ""
+        reqs = [{"op": "c14.meanbv" + sfx, "recs": recs, "useGrp": use, "ntrait": len(tc),
+                 "gtTaxa": None if gt is None else gt["taxa"]}]
+        for o, order in outs:
+            if gt is None:
+                reqs.append({"op": "c14.spec_meanbv" + sfx + "_nogt", "recs": recs, "ntrait": len(tc),
+                             "outTaxa": o["taxa"], "outRows": o["rows"]})
+            else:
+                tx = gt["taxa"] if order is None else [gt["taxa"][i] for i in order]
+                gg = gt.get("grp")
+                gg = gg if (gg is None or order is None) else [gg[i] for i in order]
+                reqs.append({"op": "c14.spec_meanbv" + sfx, "recs": recs, "ntrait": len(tc), "gtTaxa": tx, "gtGrp": gg,
+                             "traits": tc, "outTaxa": o["taxa"], "outGrp": o["grp"], "outTrait": o["trait"],
+                             "outRows": o["rows"]})
+        return reqs
+
     def requests(self, case, obs):
         k = case["kind"]
         pop = case.get("pop")
@@ -774,8 +1711,16 @@ class C14(Prop):
             t = self._t(pop)
             zero = all(all(v == 0 for v in _var_vec(case.get(kk), t)) for kk in ("var_env", "var_rep", "var_err"))
             base = {"gv": obs["gv"], "taxa": pop["taxa"], "grp": pop["grp"], "trait": pop["trait"], "ntrait": t}
+            draws = obs["draws"]
+            if case.get("rng_none"):       # package-level generator (not recorded); all variances are zero: zero draws
+                n = len(pop["geno"][0])
+                draws = []
+                for kk in _layout_asis(case):
+                    draws.append({"v": [0] * t})
+                    for _ in range(kk):
+                        draws += [{"v": [0] * t}, {"m": [[0] * t for _ in range(n)]}]
             return [
-                {"op": "c14.phenotype", **base, "nenv": case["nenv"], "nrep": case["nrep"], "draws": obs["draws"],
+                {"op": "c14.phenotype", **base, "nenv": case["nenv"], "nrep": case["nrep"], "draws": draws,
                  "nenvAfter": case.get("nenv_after")},
                 {"op": "c14.spec_pheno", "gv": obs["gv"], "taxa": pop["taxa"], "grp": pop["grp"],
                  "nrep": _layout_spec(case), "zeroNoise": zero, "rows": obs["rows"]},
@@ -783,52 +1728,62 @@ class C14(Prop):
                 # TruePhenotyping = a noiseless trial with one environment and one replicate
                 {"op": "c14.spec_pheno", "gv": obs["gv"], "taxa": pop["taxa"], "grp": pop["grp"], "nrep": [1],
                  "zeroNoise": True, "rows": [dict(r, env=1, rep=1) for r in obs["true_rows"]]},
+                # the configuration object: stored attributes, layout, the generator calls phenotype() makes
+                {"op": "c14.config", "ntrait": t, "ntaxa": len(pop["geno"][0]), "nenv": case["nenv"], "nrep": case["nrep"],
+                 "var_env": case.get("var_env"), "var_rep": case.get("var_rep"), "var_err": case.get("var_err"),
+                 "ops": [] if case.get("nenv_after") is None else [{"attr": "nenv", "value": case["nenv_after"]}]},
             ]
         if k == "h2":
             t = self._t(pop)
             h2 = case["h2"] if isinstance(case["h2"], list) else [case["h2"]] * t
-            # set_h2 uses var_A (variance of breeding values), set_H2 uses var_G (variance of genotypic values)
-            return [{"op": "c14.h2", "gv": canon.enc(_gv_exact(pop, dominance=(case["which"] == "H2"))), "ntrait": t,
-                     "h2": h2},
-                    {"op": "c14.spec_h2", "h2": h2, "varA": obs["varA"], "varErr": obs["varErr"]}]
+            dom = case["which"] == "H2"
+            # set_h2 uses var_A (variance of breeding values), set_H2 uses var_G (variance of genotypic values);
+            # the Spec is given the EXACT genetic variance of the population (the observed one is compared with it)
+            return [{"op": "c14.h2", "gv": canon.enc(_gv_exact(pop, dominance=dom)), "ntrait": t, "h2": h2},
+                    {"op": "c14.spec_h2", "h2": h2, "varA": canon.enc(_var_exact(pop, dom)), "varErr": obs["varErr"]}]
         if k == "meanbv":
             tc = case["trait_cols"]
-            use = case["grp_col"] is not None
             recs = self._table_recs(case["table"], tc)
             gt = case.get("gt")
-            # a table with missing cells (NaN) goes through the NaN-aware model / Spec ops
-            sfx = "_nan" if any(v is None for r in recs for v in r["vals"]) else ""
-            reqs = [{"op": "c14.meanbv" + sfx, "recs": recs, "useGrp": use, "ntrait": len(tc),
-                     "gtTaxa": None if gt is None else gt["taxa"]}]
-            if gt is None:
-                for key in ("base", "rowperm"):
-                    reqs.append({"op": "c14.spec_meanbv" + sfx + "_nogt", "recs": recs, "ntrait": len(tc),
-                                 "outTaxa": obs[key]["taxa"], "outRows": obs[key]["rows"]})
+            if gt is not None and (case.get("forms") or {}).get("gt_grouped"):
+                # the genotype matrix was grouped before it was supplied: its labels as supplied are read off the object
+                reqs = self._est_requests(recs, tc, case["grp_col"] is not None, obs["gt_seen"],
+                                          [(obs["base"], None), (obs["rowperm"], None)])
+                if "gtperm" in obs:
+                    reqs += self._est_requests(recs, tc, case["grp_col"] is not None, obs["gt_seen_perm"],
+                                               [(obs["gtperm"], None)])[1:]
                 return reqs
-
-            def spec(o, order):
-                tx = gt["taxa"] if order is None else [gt["taxa"][i] for i in order]
-                gg = gt.get("grp")
-                gg = gg if (gg is None or order is None) else [gg[i] for i in order]
-                return {"op": "c14.spec_meanbv" + sfx, "recs": recs, "ntrait": len(tc), "gtTaxa": tx, "gtGrp": gg,
-                        "traits": tc, "outTaxa": o["taxa"], "outGrp": o["grp"], "outTrait": o["trait"],
-                        "outRows": o["rows"]}
-            reqs.append(spec(obs["base"], None))
-            reqs.append(spec(obs["rowperm"], None))
-            if "gtperm" in obs:
-                reqs.append(spec(obs["gtperm"], case["gt_perm"]))
-            return reqs
+            outs = [(obs["base"], None), (obs["rowperm"], None)]
+            if gt is not None and "gtperm" in obs:
+                outs.append((obs["gtperm"], case["gt_perm"]))
+            return self._est_requests(recs, tc, case["grp_col"] is not None, gt, outs)
         if k == "pipeline":
             tc = obs["tcols"]
-            return [{"op": "c14.meanbv", "recs": obs["rows"], "useGrp": bool(case["use_grp"]), "ntrait": len(tc),
+            true_src = case.get("src") == "true"
+            rows = [dict(r, env=1, rep=1) for r in obs["rows"]] if true_src else obs["rows"]
+            return [{"op": "c14.meanbv", "recs": obs["rows_est"], "useGrp": bool(case["use_grp"]), "ntrait": len(tc),
                      "gtTaxa": obs["gt_taxa"]},
-                    {"op": "c14.spec_meanbv", "recs": obs["rows"], "ntrait": len(tc), "gtTaxa": obs["gt_taxa"],
+                    {"op": "c14.spec_meanbv", "recs": obs["rows_est"], "ntrait": len(tc), "gtTaxa": obs["gt_taxa"],
                      "gtGrp": obs["gt_grp"], "traits": tc, "outTaxa": obs["bv"]["taxa"], "outGrp": obs["bv"]["grp"],
                      "outTrait": obs["bv"]["trait"], "outRows": obs["bv"]["rows"]},
                     {"op": "c14.spec_pheno", "gv": obs["gv"], "taxa": pop["taxa"], "grp": pop["grp"],
-                     "nrep": _nrep_list(case["nenv"], case["nrep"]), "zeroNoise": False, "rows": obs["rows"]}]
+                     "nrep": [1] if true_src else _nrep_list(case["nenv"], case["nrep"]), "zeroNoise": true_src,
+                     "rows": rows}]
         if k == "stat":
             return []
+        if k == "phist":
+            reqs = []
+            for st in obs["steps"]:
+                reqs.extend(self.requests(st["case"], st["obs"]))
+            return reqs
+        if k == "ehist":
+            reqs = []
+            gt = case["gt"]
+            for st in obs["steps"]:
+                recs = self._table_recs(st["table"], st["trait_cols"])
+                reqs.extend(self._est_requests(recs, st["trait_cols"], st["grp_col"] is not None,
+                                               gt if st["gt"] else None, [(st["out"], None)]))
+            return reqs
         if k == "reject":
             t = self._t(pop)
             if case["what"].startswith("nrep"):
@@ -841,9 +1796,9 @@ class C14(Prop):
 
     # ================================================================================ judge
     def _cov_ok(self, log, case, n, t):
-        """the call pattern and the distribution parameters the code hands to multivariate_normal:
-        per environment one (t,) draw with cov diag(var_env); per replicate one (t,) draw with diag(var_rep) and one
-        (n,t) draw with diag(var_err); all means zero"""
+        """(stat stream; the `pheno` judge uses the model's `drawPlan`) the call pattern and the distribution parameters the
+        code hands to multivariate_normal: per environment one (t,) draw with cov diag(var_env); per replicate one (t,) draw
+        with diag(var_rep) and one (n,t) draw with diag(var_err); all means zero"""
         ve, vr, vx = (_var_vec(case.get(kk), t) for kk in ("var_env", "var_rep", "var_err"))
         want = []
         for k in _layout_asis(case):
@@ -851,6 +1806,10 @@ class C14(Prop):
             for _ in range(k):
                 want.append((vr, None))
                 want.append((vx, n))
+        return self._log_matches(log, want, t)
+
+    @staticmethod
+    def _log_matches(log, want, t):
         if len(log) != len(want):
             return False, f"{len(log)} draws for {len(want)} expected"
         for call, (v, size) in zip(log, want):
@@ -859,11 +1818,26 @@ class C14(Prop):
             if any(x != 0 for x in call["mean"]) or len(call["mean"]) != t:
                 return False, "non-zero mean"
             cov = call["cov"]
+            if len(cov) != t or any(len(r) != t for r in cov):
+                return False, f"cov of shape {numpy.shape(cov)}"
             for a in range(t):
                 for b in range(t):
-                    if Fraction(cov[a][b]) != (v[a] if a == b else 0):
+                    w = Fraction(v[a]) if a == b else Fraction(0)
+                    if abs(Fraction(cov[a][b]) - w) > abs(w) / 10 ** 12:
                         return False, f"cov {cov} for diag({[str(x) for x in v]})"
         return True, "draw parameters ok"
+
+    def _config_ok(self, cfg, obs, t):
+        """stored attributes and generator calls of the real object against the model of the configuration object"""
+        if "plan" not in cfg:
+            return False, "model rejects the configuration"
+        if cfg["nenv"] != obs.get("nenv_attr", cfg["nenv"]) or cfg["nrep"] != obs["nrep"]:
+            return False, f"stored nenv/nrep {obs.get('nenv_attr')}/{obs['nrep']} for model {cfg['nenv']}/{cfg['nrep']}"
+        for kk in ("var_env", "var_rep", "var_err"):
+            if not canon.close_enc(cfg[kk], obs["var"][kk], rel=1e-12, abs_=0):
+                return False, f"stored {kk} {obs['var'][kk]} for model {cfg[kk]}"
+        want = [([canon.dec(x) for x in d["cov"]], d["size"]) for d in cfg["plan"]]
+        return self._log_matches(obs["log"], want, t)
 
     def judge(self, case, obs, answers):
         v = self._judge(case, obs, answers)
@@ -885,13 +1859,18 @@ class C14(Prop):
             return self._judge_meanbv(case, obs, ans)
         if k == "pipeline":
             mdl, sp, sp_ph = ans
-            corr = _rows_close(mdl["rows"], obs["bv"]["rows"])
+            scale = _scale_of([r["vals"] for r in obs["rows_est"]])
+            corr = _tight(mdl["rows"], obs["bv"]["rows"], scale)
             spec = bool(sp["ok"]) and bool(sp_ph["ok"])
             return {"corr": corr, "spec": spec, "nontrivial": len(obs["gt_taxa"]) >= 2 and len(obs["rows"]) > len(obs["gt_taxa"]),
                     "detail": f"pipeline estimate: {sp['detail']}; phenotype: {sp_ph['detail']}; model rows={mdl['rows']} "
                               f"impl rows={obs['bv']['rows']}"}
         if k == "stat":
             return self._judge_stat(case, obs)
+        if k == "phist":
+            return self._judge_phist(case, obs, answers)
+        if k == "ehist":
+            return self._judge_ehist(case, obs, ans)
         if k == "reject":
             raised = obs.get("raised") is not None
             if case["what"].startswith("nrep"):
@@ -906,33 +1885,37 @@ class C14(Prop):
         raise ValueError(k)
 
     def _judge_pheno(self, case, obs, ans):
-        mdl, sp, tmdl, tsp = ans
+        mdl, sp, tmdl, tsp, cfg = ans
         pop = case["pop"]
         t = self._t(pop)
         n = len(pop["geno"][0])
         detail = []
+        scale = _scale_of(obs["gv"], obs["draws"])
         # correspondence: same frame, row by row, in order
         corr = "rows" in mdl and mdl["cols"] == obs["cols"] and mdl["nrep"] == obs["nrep"] \
             and len(mdl["rows"]) == len(obs["rows"])
         if corr:
             for a, b in zip(mdl["rows"], obs["rows"]):
                 if (a["taxa"], a["grp"], a["env"], a["rep"]) != (b["taxa"], b["grp"], b["env"], b["rep"]) or \
-                        not _rows_close([a["vals"]], [b["vals"]]):
+                        not _tight([a["vals"]], [b["vals"]], scale):
                     corr = False
                     detail.append(f"row differs: model {a} impl {b}")
                     break
         else:
             detail.append(f"frame differs: model cols={mdl.get('cols')} n={len(mdl.get('rows', []))} "
                           f"impl cols={obs['cols']} n={len(obs['rows'])}")
-        # true values observed = additive closed form
-        gvx = _gv_exact(pop)
-        gv_ok = _rows_close(canon.enc(gvx), obs["gv"])
-        # the call pattern and the distribution parameters assumed by the model are the real ones; inputs untouched
-        cov_ok, cov_msg = self._cov_ok(obs["log"], case, n, t)
-        corr = corr and gv_ok and obs["leftover"] == 0 and cov_ok and obs["input_untouched"]
+        # true values observed = additive (+ dominance) closed form
+        gvx = canon.enc(_gv_exact(pop))
+        gscale = _scale_of(gvx)
+        gv_ok = _tight(gvx, obs["gv"], gscale)
+        # the stored configuration, the call pattern and the distribution parameters are those of the model; inputs untouched
+        cov_ok, cov_msg = self._config_ok(cfg, obs, t) if not case.get("rng_none") else (True, "package-level generator")
+        corr = corr and obs["leftover"] == 0 and cov_ok and obs["input_untouched"] and not obs.get("script_failed")
+        if obs.get("script_failed"):
+            detail.append("the scripted draw stream was not consumed in the modelled order: " + obs["script_failed"])
         # TruePhenotyping and TrueBreedingValue against the model
         tcorr = "rows" in tmdl and tmdl["cols"] == obs["true_cols"] and len(tmdl["rows"]) == len(obs["true_rows"]) and all(
-            a["taxa"] == b["taxa"] and a["grp"] == b["grp"] and _rows_close([a["vals"]], [b["vals"]])
+            a["taxa"] == b["taxa"] and a["grp"] == b["grp"] and _tight([a["vals"]], [b["vals"]], gscale)
             for a, b in zip(tmdl["rows"], obs["true_rows"]))
         corr = corr and tcorr
         if not tcorr:
@@ -940,9 +1923,12 @@ class C14(Prop):
         # Spec
         tb = obs["truebv"]
         tbv_ok = tb["taxa"] == pop["taxa"] and tb["grp"] == pop["grp"] and \
-            _rows_close(tb["rows"], canon.enc(_gv_exact(pop, dominance=False))) \
+            _tight(tb["rows"], canon.enc(_gv_exact(pop, dominance=False)), gscale) \
             and (pop["trait"] is None or tb["trait"] == pop["trait"])
-        spec = bool(sp["ok"]) and bool(tsp["ok"]) and tbv_ok
+        # the Lean Spec compares the records with the true values AS REPORTED by the genomic model (exactly); that those are
+        # the population's true genotypic values (exact closed form of the additive / dominance model on the CURRENT genotypes
+        # and effects) is part of the same clause
+        spec = bool(sp["ok"]) and bool(tsp["ok"]) and tbv_ok and gv_ok
         ncell = sum(_layout_asis(case))
         nontriv = n >= 2 and ncell >= 2 and (pop["taxa"] is None or pop["taxa"] != sorted(pop["taxa"]))
         return {"corr": corr, "spec": spec, "nontrivial": nontriv,
@@ -951,8 +1937,8 @@ class C14(Prop):
 
     def _judge_h2(self, case, obs, ans):
         mdl, sp = ans
-        corr = canon.close_enc(mdl["varA"], obs["varA"], rel=1e-9, abs_=1e-12) and mdl["varErr"] is not None and \
-            canon.close_enc(mdl["varErr"], obs["varErr"], rel=1e-9, abs_=1e-12)
+        corr = canon.close_enc(mdl["varA"], obs["varA"], rel=1e-9, abs_=0) and mdl["varErr"] is not None and \
+            canon.close_enc(mdl["varErr"], obs["varErr"], rel=1e-9, abs_=0)
         h2 = case["h2"] if isinstance(case["h2"], list) else [case["h2"]]
         nontriv = any(Fraction(v) > 0 for v in canon.dec(mdl["varA"])) and any(Fraction(h) < 1 for h in h2)
         return {"corr": corr, "spec": bool(sp["ok"]), "nontrivial": nontriv,
@@ -963,21 +1949,22 @@ class C14(Prop):
         specs = ans[1:]
         gt = case.get("gt")
         base, rp = obs["base"], obs["rowperm"]
+        scale = _scale_of(case["table"]["vals"])
         if gt is None:
             corr = mdl["taxa"] == base["taxa"] and mdl.get("grp", base["grp"]) == base["grp"] and \
-                _rows_close(mdl["rows"], base["rows"])
-            inv = base["taxa"] == rp["taxa"] and base["grp"] == rp["grp"] and _rows_close(base["rows"], rp["rows"])
+                _tight(mdl["rows"], base["rows"], scale)
+            inv = base["taxa"] == rp["taxa"] and base["grp"] == rp["grp"] and _tight(base["rows"], rp["rows"], scale)
             gtinv = True
         else:
-            corr = _rows_close(mdl["rows"], base["rows"])
+            corr = _tight(mdl["rows"], base["rows"], scale)
             inv = (base["taxa"], base["grp"], base["trait"]) == (rp["taxa"], rp["grp"], rp["trait"]) and \
-                _rows_close(base["rows"], rp["rows"])
+                _tight(base["rows"], rp["rows"], scale)
             gtinv = True
-            if "gtperm" in obs:
+            if "gtperm" in obs and not (case.get("forms") or {}).get("gt_grouped"):
                 gp = obs["gtperm"]
                 perm = case["gt_perm"]
-                gtinv = gp["taxa"] == [base["taxa"][i] for i in perm] and _rows_close(
-                    gp["rows"], [base["rows"][i] for i in perm])
+                gtinv = gp["taxa"] == [base["taxa"][i] for i in perm] and _tight(
+                    gp["rows"], [base["rows"][i] for i in perm], scale)
         spec = all(bool(s["ok"]) for s in specs) and inv and gtinv
         if case.get("corr_only"):        # one name under two groups with the group column in use: outside the valid inputs
             spec = True
@@ -990,28 +1977,76 @@ class C14(Prop):
         nontriv = max(counts.values()) >= 2 and (order_differs or gt is None and len(counts) >= 2)
         return {"corr": corr, "spec": spec, "nontrivial": nontriv,
                 "detail": "meanbv " + "; ".join(s["detail"] for s in specs) +
-                          f" row_perm_invariant={inv} gt_perm_aligned={gtinv} model={mdl} impl={base}"}
+                          f" row_perm_invariant={inv} gt_perm_aligned={gtinv} model={str(mdl)[:600]} impl={str(base)[:600]}"}
 
     def _judge_stat(self, case, obs):
-        if not obs.get("shape_ok"):
-            return {"corr": False, "spec": False, "nontrivial": True, "detail": f"stat: wrong number of records {obs}"}
+        if not obs.get("shape_ok") or not obs.get("cells_ok", True):
+            return {"corr": False, "spec": False, "nontrivial": True,
+                    "detail": f"stat: wrong number of records / wrong (env, rep) cells {obs}"}
         n, t = obs["n"], obs["t"]
-        nenv, nrep = int(case["nenv"]), int(case["nrep"])
+        nenv = int(case["nenv"])
+        lay = _nrep_list(nenv, case["nrep"])
         ve, vr, vx = ([float(x) for x in _var_vec(case.get(kk), t)] for kk in ("var_env", "var_rep", "var_err"))
-        ok = obs["ncell"] == nenv * nrep and obs["nenv_seen"] == nenv
+        ok = True
         msgs = []
+        floor = 1e-18 * max(1.0, obs.get("gvmax", 1.0)) ** 2       # rounding of (record - true value) at variance 0
         for j in range(t):
+            cell = vr[j] + vx[j] / n
             # (estimate, expectation, degrees of freedom)
-            checks = [("err", obs["within"][j], vx[j], nenv * nrep * (n - 1)),
-                      ("rep", obs["rep_var"][j], vr[j] + vx[j] / n, nenv * (nrep - 1)),
-                      ("env", obs["env_var"][j], ve[j] + vr[j] / nrep + vx[j] / (n * nrep), nenv - 1)]
+            checks = [("err", obs["within"][j], vx[j], sum(lay) * (n - 1))]
+            if obs["rep_df"] > 0:
+                checks.append(("rep", obs["rep_var"][j], cell, obs["rep_df"]))
+            for kk, ev in sorted(obs["env_var"].items()):
+                checks.append((f"env|nrep={kk}", ev["est"][j], ve[j] + cell / int(kk), ev["df"]))
             for name, est, exp, df in checks:
-                band = 7.0 * math.sqrt(2.0 / df) * exp
+                band = 7.0 * math.sqrt(2.0 / df) * exp + floor
                 good = abs(est - exp) <= band
                 ok = ok and good
                 msgs.append(f"{name}[{j}] est={est:.4g} exp={exp:.4g} band={band:.3g} {'ok' if good else 'OUT'}")
         return {"corr": bool(obs["cov_ok"]), "spec": bool(ok), "nontrivial": True,
                 "detail": f"stat draw_parameters_as_modelled={obs['cov_ok']} " + "; ".join(msgs)}
+
+    def _judge_phist(self, case, obs, answers):
+        corr, spec, details = True, True, []
+        pos = 0
+        npheno = 0
+        for i, st in enumerate(obs["steps"]):
+            k = 5 if st["type"] == "pheno" else 2
+            v = self._judge(st["case"], st["obs"], answers[pos:pos + k])
+            pos += k
+            corr = corr and v["corr"]
+            spec = spec and v["spec"]
+            npheno += st["type"] == "pheno"
+            if not (v["corr"] and v["spec"]):
+                details.append(f"step {i} ({st['type']}): {v['detail'][:700]}")
+        if not obs["stable"]:
+            spec = False
+            details.append("a data frame returned earlier reads differently after later calls on the same protocol")
+        return {"corr": corr, "spec": spec, "nontrivial": len(obs["steps"]) >= 2,
+                "detail": f"history of {len(case['steps'])} steps, {len(obs['steps'])} judged: " +
+                          ("all steps hold" if not details else " | ".join(details))}
+
+    def _judge_ehist(self, case, obs, ans):
+        corr, spec, details = True, True, []
+        pos = 0
+        for i, st in enumerate(obs["steps"]):
+            mdl, sp = ans[pos], ans[pos + 1]
+            pos += 2
+            scale = _scale_of(st["table"]["vals"])
+            o = st["out"]
+            if st["gt"]:
+                c = _tight(mdl["rows"], o["rows"], scale)
+            else:
+                c = mdl["taxa"] == o["taxa"] and _tight(mdl["rows"], o["rows"], scale)
+            corr = corr and c
+            spec = spec and bool(sp["ok"])
+            if not (c and sp["ok"]):
+                details.append(f"estimate {i}: {sp['detail']} model={str(mdl)[:400]} impl={str(o)[:400]}")
+        if not obs["stable"]:
+            spec = False
+            details.append("a matrix returned earlier reads differently after later calls on the same estimator")
+        return {"corr": corr, "spec": spec, "nontrivial": len(obs["steps"]) >= 2,
+                "detail": f"estimator history, {len(obs['steps'])} estimates: " + ("all hold" if not details else " | ".join(details))}
 
     # ================================================================================ findings / shrinking
     def signature(self, case, obs, verdict):
@@ -1020,6 +2055,16 @@ class C14(Prop):
             sig["site"] = "G_E_Phenotyping.nenv"
             if case["nenv_after"] > case["nenv"] and not isinstance(case["nrep"], list):
                 sig["cond"] = "nenv_increased_after_construction"
+        if case["kind"] == "phist":
+            cur, scalar, alen = case["nenv"], not isinstance(case["nrep"], list), case["nenv"]
+            for st in case["steps"]:
+                if st["op"] == "set" and st["attr"] == "nenv":
+                    cur = st["value"]
+                elif st["op"] == "set" and st["attr"] == "nrep":
+                    scalar, alen = not isinstance(st["value"], list), cur
+                elif st["op"] == "pheno" and scalar and cur > alen:
+                    sig["site"] = "G_E_Phenotyping.nenv"
+                    sig["cond"] = "nenv_increased_after_construction"
         if case["kind"] == "meanbv":
             sig["site"] = SITE_EST
             if case.get("grp_col") is not None and case["table"].get("grp") is None:
@@ -1068,6 +2113,25 @@ class C14(Prop):
                 if case.get("script"):
                     c["script"] = case["script"][:-1]
                 yield c
+        if k in ("phist", "ehist"):
+            # drop one step (never a setter: the later steps were generated against the configuration it establishes)
+            keep_ops = ("set",)
+            for i in range(len(case["steps"]) - 1, -1, -1):
+                st = case["steps"][i]
+                if st["op"] in keep_ops or st["op"] in ("mutate_out", "zero_out", "relabel"):
+                    continue
+                c = dict(case)
+                c["steps"] = case["steps"][:i] + case["steps"][i + 1:]
+                if k == "phist":
+                    np_ = sum(1 for x in c["steps"] if x["op"] == "pheno")
+                    c["steps"] = [x for x in c["steps"] if x["op"] != "mutate_out" or x["which"] < np_]
+                    if st["op"] == "pheno":
+                        c["steps"] = [x for x in c["steps"] if x["op"] != "mutate_out"]
+                else:
+                    if st["op"] == "est":
+                        c["steps"] = [x for x in c["steps"] if x["op"] != "zero_out"]
+                if any(x["op"] in ("pheno", "set_h2", "est") for x in c["steps"]):
+                    yield c
         if k == "meanbv":
             tab = case["table"]
             m = len(tab["taxa"])
@@ -1104,7 +2168,8 @@ class C14(Prop):
 
         @contextlib.contextmanager
         def patch(obj, name, new):
-            old = getattr(obj, name)
+            # (the raw class attribute, so that properties / classmethods are restored as such)
+            old = obj.__dict__[name] if isinstance(obj, type) and name in obj.__dict__ else getattr(obj, name)
             setattr(obj, name, new)
             was = prop._selftest_active
             prop._selftest_active = True
@@ -1268,7 +2333,244 @@ class C14(Prop):
             order = numpy.argsort(numpy.array([str(x) for x in out.taxa]), kind="stable")
             return type(out).from_numpy(mat=out.unscale()[order], taxa=out.taxa, taxa_grp=out.taxa_grp, trait=out.trait)
 
-        return [
+        # ------------------------------------------------------------------ round 3: one mutant per new class of inputs
+        import copy as _copy
+        DALGM = m["dalgm"].DenseAdditiveLinearGenomicModel
+        h2_0, H2_0 = GEP.set_h2, GEP.set_H2
+
+        def h2_founder_cache(self, h2, pgmat, **kw):          # (1) var_A remembered per founder OBJECT, never invalidated
+            if getattr(self, "_mut_founder", None) is not pgmat:
+                self._mut_founder = pgmat
+                self._mut_var_A = self.gpmod.var_A(pgmat)
+            self.var_err = (1.0 - h2) / h2 * self._mut_var_A
+
+        def pheno_gv_cache(self, pgmat, miscout=None, **kw):   # (1) true values remembered per population OBJECT
+            memo = getattr(self, "_mut_gv", None)
+            if memo is None or memo[0] is not pgmat:
+                self._mut_gv = (pgmat, self.gpmod.gegv(pgmat))
+            gv = self._mut_gv[1]
+
+            class Frozen:
+                ntrait = self.gpmod.ntrait
+
+                def gegv(s, *a, **k):
+                    return gv
+            real = self._gpmod
+            self._gpmod = Frozen()
+            try:
+                return ph0(self, pgmat, miscout, **kw)
+            finally:
+                self._gpmod = real
+
+        def pheno_layout_cache(self, pgmat, miscout=None, **kw):   # (1) layout and covariances frozen at the first call
+            if not hasattr(self, "_mut_cfg"):
+                self._mut_cfg = (self._nenv, self._nrep.copy(), self._var_env.copy(), self._var_rep.copy(), self._var_err.copy())
+            now = (self._nenv, self._nrep, self._var_env, self._var_rep, self._var_err)
+            (self._nenv, self._nrep, self._var_env, self._var_rep, self._var_err) = self._mut_cfg
+            try:
+                return ph0(self, pgmat, miscout, **kw)
+            finally:
+                (self._nenv, self._nrep, self._var_env, self._var_rep, self._var_err) = now
+
+        def est_frame_memo(self, ptobj, gtobj=None, miscout=None, **kw):   # (1) aggregate remembered per frame OBJECT
+            memo = getattr(self, "_mut_memo", None)
+            if memo is None or memo[0] is not ptobj:
+                self._mut_memo = (ptobj, ptobj.copy(deep=True))
+            return est0(self, self._mut_memo[1], gtobj, miscout, **kw)
+
+        def est_shared_buffer(self, ptobj, gtobj=None, miscout=None, **kw):   # (1) one output buffer per shape, reused
+            out = est0(self, ptobj, gtobj, miscout, **kw)
+            bufs = self.__dict__.setdefault("_mut_bufs", {})
+            buf = bufs.get(out.mat.shape)
+            if buf is None:
+                bufs[out.mat.shape] = out.mat
+            else:
+                buf[...] = out.mat
+                out._mat = buf
+            return out
+
+        def est_traits_frozen(self, ptobj, gtobj=None, miscout=None, **kw):   # (1) trait list frozen at the first call
+            if not hasattr(self, "_mut_traits"):
+                self._mut_traits = list(self._trait_cols)
+            now = self._trait_cols
+            self._trait_cols = self._mut_traits
+            try:
+                return est0(self, ptobj, gtobj, miscout, **kw)
+            finally:
+                self._trait_cols = now
+
+        def h2_isclose_one(self, h2, pgmat, **kw):             # (2) targets "close to" 1 treated as 1
+            h = numpy.where(numpy.isclose(h2, 1.0), 1.0, h2)
+            self.var_err = (1.0 - h) / h * self.gpmod.var_A(pgmat)
+
+        def h2_var_floor(self, h2, pgmat, **kw):               # (2) genetic variance clipped at 1e-8
+            self.var_err = (1.0 - h2) / h2 * numpy.maximum(self.gpmod.var_A(pgmat), 1e-8)
+
+        def pheno_float32(self, pgmat, miscout=None, **kw):    # (2) record values stored in single precision
+            df = ph0(self, pgmat, miscout, **kw)
+            for c in df.columns[4:]:
+                df[c] = df[c].to_numpy().astype("float32").astype(float)
+            return df
+
+        def est_tiny_to_zero(self, ptobj, gtobj=None, miscout=None, **kw):   # (2) means that are "close to" 0 set to 0
+            out = est0(self, ptobj, gtobj, miscout, **kw)
+            raw = out.unscale()
+            raw = numpy.where(numpy.isclose(raw, 0.0), 0.0, raw)
+            return type(out).from_numpy(mat=raw, taxa=out.taxa, taxa_grp=out.taxa_grp, trait=out.trait)
+
+        def est_float32(self, ptobj, gtobj=None, miscout=None, **kw):   # (2) means accumulated in single precision
+            out = est0(self, ptobj, gtobj, miscout, **kw)
+            raw = out.unscale().astype("float32").astype(float)
+            return type(out).from_numpy(mat=raw, taxa=out.taxa, taxa_grp=out.taxa_grp, trait=out.trait)
+
+        def est_round6(self, ptobj, gtobj=None, miscout=None, **kw):    # (2) means rounded to 6 decimals
+            out = est0(self, ptobj, gtobj, miscout, **kw)
+            return type(out).from_numpy(mat=numpy.round(out.unscale(), 6), taxa=out.taxa, taxa_grp=out.taxa_grp, trait=out.trait)
+
+        def pheno_env_int8(self, pgmat, miscout=None, **kw):   # (3) environment / replicate labels in 8 bits
+            df = ph0(self, pgmat, miscout, **kw)
+            df["env"] = df["env"].to_numpy().astype("int8").astype(int)
+            df["rep"] = df["rep"].to_numpy().astype("int8").astype(int)
+            return df
+
+        def pheno_chunk_1024(self, pgmat, miscout=None, **kw):   # (3) only the first 1024 taxa of every block are kept
+            df = ph0(self, pgmat, miscout, **kw)
+            n = pgmat.ntaxa
+            if n <= 1024:
+                return df
+            keep = (numpy.arange(len(df)) % n) < 1024
+            return df[keep].reset_index(drop=True)
+
+        def est_count_int8(self, ptobj, gtobj=None, miscout=None, **kw):   # (3) group sizes counted in 8 bits
+            cnt = ptobj.groupby(self.taxa_col)[self.taxa_col].transform("size").to_numpy()
+            if (cnt <= 127).all():
+                return est0(self, ptobj, gtobj, miscout, **kw)
+            q = ptobj.copy()
+            for c in self.trait_cols:
+                q[c] = q[c].to_numpy(dtype=float) * cnt / numpy.abs(cnt.astype("int8").astype(float))
+            return est0(self, q, gtobj, miscout, **kw)
+
+        nrep_prop = GEP.nrep
+
+        def nrep_first_entry(self, value):                     # (4) per-environment array reduced to its first entry
+            if isinstance(value, numpy.ndarray) and value.ndim == 1 and len(value) == self.nenv and len(value) > 0:
+                value = numpy.full(len(value), value[0], dtype=value.dtype)
+            nrep_prop.fset(self, value)
+
+        verr_prop = GEP.var_err
+
+        def var_err_first_entry(self, value):                  # (4) per-trait array reduced to its first entry
+            if isinstance(value, numpy.ndarray) and value.ndim == 1 and len(value) > 0:
+                value = numpy.full(len(value), value[0], dtype=value.dtype)
+            verr_prop.fset(self, value)
+
+        tc_prop = MBV.trait_cols
+
+        def trait_cols_split(self, value):                     # (4) a single column name iterated character by character
+            self._trait_cols = list(value)
+
+        def est_positional_index(self, ptobj, gtobj=None, miscout=None, **kw):   # (4) index labels taken for positions
+            pos = numpy.asarray(ptobj.index)
+            if pos.dtype.kind in "iu" and sorted(pos.tolist()) == list(range(len(pos))):
+                return est0(self, ptobj.iloc[pos], gtobj, miscout, **kw) if False else \
+                    est0(self, ptobj.assign(**{c: ptobj[c].to_numpy()[pos] for c in self.trait_cols}), gtobj, miscout, **kw)
+            return est0(self, ptobj, gtobj, miscout, **kw)
+
+        copy0 = GEP.__copy__
+
+        def copy_scalar_nrep(self):                            # (5) copy() rebuilds the protocol from nrep[0]
+            out = copy0(self)
+            out._nrep = numpy.full(len(self._nrep), self._nrep[0], dtype=self._nrep.dtype)
+            return out
+
+        deep0 = GEP.__deepcopy__
+
+        def deepcopy_default_variances(self, memo=None):       # (5) deepcopy() forgets the replicate variance
+            out = deep0(self, memo)
+            out._var_rep = numpy.zeros_like(self._var_rep)
+            out._nenv = max(1, int(self._nenv) - 1) if int(self._nenv) > 1 else out._nenv
+            return out
+
+        h5_0 = GEP.from_hdf5.__func__
+
+        def hdf5_nrep_first(cls, filename, groupname=None, gpmod=None):   # (5) from_hdf5 restores nrep from its first entry
+            out = h5_0(cls, filename, groupname, gpmod)
+            out._nrep = numpy.full(len(out._nrep), out._nrep[0], dtype=out._nrep.dtype)
+            return out
+
+        def H2_from_var_A(self, H2, pgmat, **kw):              # (5) broad-sense target computed from the additive variance
+            self.var_err = (1.0 - H2) / H2 * self.gpmod.var_A(pgmat)
+
+        def est_constant_trait_nan(self, ptobj, gtobj=None, miscout=None, **kw):   # (6) constant column -> 0/0
+            out = est0(self, ptobj, gtobj, miscout, **kw)
+            raw = out.unscale()
+            for j in range(raw.shape[1]):
+                col = raw[:, j][~numpy.isnan(raw[:, j])]
+                if len(col) and (col == col[0]).all():
+                    raw[:, j] = numpy.nan
+            return type(out).from_numpy(mat=raw, taxa=out.taxa, taxa_grp=out.taxa_grp, trait=out.trait)
+
+        def pheno_no_rep_single(self, pgmat, miscout=None, **kw):   # (4) replicate effect dropped where nrep[e] == 1
+            pattern = []
+            for k in self.nrep[:self.nenv]:
+                pattern += [False] + [int(k) == 1, False] * int(k)
+
+            class NoRep:
+                def __init__(s, g):
+                    s.g = g
+                    s.i = 0
+
+                def multivariate_normal(s, mean, cov, size=None, **k2):
+                    out = s.g.multivariate_normal(mean, cov, size, **k2)
+                    drop = s.i < len(pattern) and pattern[s.i]
+                    s.i += 1
+                    return numpy.zeros_like(out) if drop else out
+            real = self._rng
+            self._rng = NoRep(real)
+            try:
+                return ph0(self, pgmat, miscout, **kw)
+            finally:
+                self._rng = real
+
+        gegv0 = DALGM.gegv
+
+        def gegv_memo(self, gtobj, **kw):                      # (1) genomic model remembers true values per population OBJECT
+            memo = self.__dict__.setdefault("_mut_gegv", {})
+            if id(gtobj) not in memo:
+                memo[id(gtobj)] = (gtobj, gegv0(self, gtobj, **kw))
+            return memo[id(gtobj)][1]
+
+        round3 = [
+            ("r3_set_h2_founder_variance_cached", lambda: patch(GEP, "set_h2", h2_founder_cache)),
+            ("r3_phenotype_true_values_cached_per_object", lambda: patch(GEP, "phenotype", pheno_gv_cache)),
+            ("r3_phenotype_configuration_frozen_at_first_call", lambda: patch(GEP, "phenotype", pheno_layout_cache)),
+            ("r3_genomic_model_true_values_cached_per_object", lambda: patch(DALGM, "gegv", gegv_memo)),
+            ("r3_estimate_aggregate_cached_per_frame_object", lambda: patch(MBV, "estimate", est_frame_memo)),
+            ("r3_estimate_output_buffer_reused", lambda: patch(MBV, "estimate", est_shared_buffer)),
+            ("r3_estimate_trait_cols_frozen_at_first_call", lambda: patch(MBV, "estimate", est_traits_frozen)),
+            ("r3_set_h2_isclose_one", lambda: patch(GEP, "set_h2", h2_isclose_one)),
+            ("r3_set_h2_variance_floor_1e-8", lambda: patch(GEP, "set_h2", h2_var_floor)),
+            ("r3_phenotype_values_float32", lambda: patch(GEP, "phenotype", pheno_float32)),
+            ("r3_estimate_isclose_zero", lambda: patch(MBV, "estimate", est_tiny_to_zero)),
+            ("r3_estimate_float32", lambda: patch(MBV, "estimate", est_float32)),
+            ("r3_estimate_round_6_decimals", lambda: patch(MBV, "estimate", est_round6)),
+            ("r3_phenotype_env_rep_labels_int8", lambda: patch(GEP, "phenotype", pheno_env_int8)),
+            ("r3_phenotype_chunk_of_1024_taxa", lambda: patch(GEP, "phenotype", pheno_chunk_1024)),
+            ("r3_estimate_group_size_int8", lambda: patch(MBV, "estimate", est_count_int8)),
+            ("r3_phenotype_no_replicate_effect_in_single_replicate_environments",
+             lambda: patch(GEP, "phenotype", pheno_no_rep_single)),
+            ("r3_nrep_array_first_entry", lambda: patch(GEP, "nrep", property(nrep_prop.fget, nrep_first_entry))),
+            ("r3_var_err_array_first_entry", lambda: patch(GEP, "var_err", property(verr_prop.fget, var_err_first_entry))),
+            ("r3_trait_cols_string_split", lambda: patch(MBV, "trait_cols", property(tc_prop.fget, trait_cols_split))),
+            ("r3_estimate_index_labels_as_positions", lambda: patch(MBV, "estimate", est_positional_index)),
+            ("r3_copy_scalar_nrep", lambda: patch(GEP, "__copy__", copy_scalar_nrep)),
+            ("r3_deepcopy_forgets_configuration", lambda: patch(GEP, "__deepcopy__", deepcopy_default_variances)),
+            ("r3_from_hdf5_nrep_first_entry", lambda: patch(GEP, "from_hdf5", classmethod(hdf5_nrep_first))),
+            ("r3_set_H2_from_additive_variance", lambda: patch(GEP, "set_H2", H2_from_var_A)),
+            ("r3_estimate_constant_trait_nan", lambda: patch(MBV, "estimate", est_constant_trait_nan)),
+        ]
+
+        return round3 + [
             ("pheno_taxa_sorted_within_block", lambda: patch(GEP, "phenotype", taxa_sorted)),
             ("pheno_group_labels_rolled", lambda: patch(GEP, "phenotype", grp_rolled)),
             ("pheno_env_rep_swapped", lambda: patch(GEP, "phenotype", rep_major)),
